@@ -29,6 +29,7 @@ import time
 import z3
 
 from pyvc import engine as E, models as M, protomodel as pm, report, verify, xreal, source
+from pyvc import attrs_model as A   # attrs-generated __init__ of the @attr.define experimenters
 from pyvc import exptr_model as X
 from pyvc.engine import Obj, Unsupported
 from pyvc.protomodel import Str
@@ -85,6 +86,51 @@ def is_batch(v):
     return isinstance(v, X.VList) and v.kind is X.K_TRIAL
 
 
+# ------------------------------------------------------------------------------------------ quantifiers (symbolic or concrete spine)
+_QN = [0]
+
+
+def _qv(prefix, sort):
+    _QN[0] += 1
+    return z3.Const('%s!q%d' % (prefix, _QN[0]), sort)
+
+
+def QJ(xs, body):
+    """for all positions j of the batch / list xs: body(j, xs[j]) -- expanded when the spine is concrete."""
+    conc = getattr(xs, 'conc', None)
+    if conc is not None:
+        return z3.And(*[body(z3.IntVal(k), t.term) for k, t in enumerate(conc)]) if conc else z3.BoolVal(True)
+    j = _qv('j', z3.IntSort())
+    return z3.ForAll([j], z3.Implies(z3.And(j >= 0, j < xs.n), body(j, xs.arr[j])))
+
+
+def QS(run, body):
+    """for all strings s: body(s) -- over the relevant strings in a bounded model query."""
+    rel = getattr(run, 'strings', None)
+    if rel is not None:
+        return z3.And(*[body(s) for s in rel]) if rel else z3.BoolVal(True)
+    s = _qv('s', Str)
+    return z3.ForAll([s], body(s))
+
+
+def QR(run, body):
+    """for all trial references r: body(r) -- over batch + spare references in a bounded model query."""
+    if getattr(run, 'strings', None) is not None:
+        refs = [t.term for t in run.setup.xs.conc] + list(getattr(run, 'spare_refs', []))
+        return z3.And(*[body(r) for r in refs]) if refs else z3.BoolVal(True)
+    r = _qv('r', X.TRef)
+    return z3.ForAll([r], body(r))
+
+
+def QM(run, body):
+    """for all MetricInformation references m."""
+    if getattr(run, 'strings', None) is not None:
+        refs = [m for b in getattr(run, 'bases', []) for m in getattr(b, 'mrefs', [])]
+        return z3.And(*[body(m) for m in refs]) if refs else z3.BoolVal(True)
+    m = _qv('m', X.MIRef)
+    return z3.ForAll([m], body(m))
+
+
 # ------------------------------------------------------------------------------------------ heap formulas
 def G(run):
     return X.heap_snapshot(run)
@@ -98,25 +144,21 @@ def trial_unchanged(a, b, r, fields=X.TRIAL_FIELDS):
     return z3.And(*[a[f][r] == b[f][r] for f in fields])
 
 
-NONTRIAL = tuple(f for f in X.FIELDS if f not in X.TRIAL_FIELDS)
-
-
-def state_preserved(cur, ent):
+def state_preserved(run, cur, ent):
     """allocation only grows; MetricInformation objects that existed keep their fields."""
-    r, m = z3.Const('r!sp', X.TRef), z3.Const('m!sp', X.MIRef)
-    return z3.And(z3.ForAll([r], z3.Implies(ent['talloc'][r], cur['talloc'][r])),
-                  z3.ForAll([m], z3.Implies(ent['mialloc'][m], z3.And(cur['mialloc'][m], cur['goal'][m] == ent['goal'][m],
-                                                                      cur['miname'][m] == ent['miname'][m], cur['mirest'][m] == ent['mirest'][m]))))
+    return z3.And(QR(run, lambda r: z3.Implies(ent['talloc'][r], cur['talloc'][r])),
+                  QM(run, lambda m: z3.Implies(ent['mialloc'][m], z3.And(cur['mialloc'][m], cur['goal'][m] == ent['goal'][m],
+                                                                         cur['miname'][m] == ent['miname'][m], cur['mirest'][m] == ent['mirest'][m]))))
 
 
 def batch_loop_frame(run, ctx, xs, cur, ent, done):
     """generic clauses of a loop that processes the trials xs[0..i) one by one, writing only the current trial:
-       not-yet-processed trials and all trials outside the batch are as at loop entry; `done(r)` holds for processed ones."""
+       not-yet-processed trials and all other existing trials are as at loop entry; `done(r)` holds for processed ones."""
     r = z3.Const('r!lf', X.TRef)
     i = ctx.i
     processed = z3.And(xs.member(r), xs.pos[r] < i)
     return [('frame', z3.ForAll([r], z3.Implies(z3.And(ent['talloc'][r], z3.Not(processed)), trial_unchanged(cur, ent, r)))),
-            ('other_state', state_preserved(cur, ent)),
+            ('other_state', state_preserved(run, cur, ent)),
             ('processed', z3.ForAll([r], z3.Implies(processed, done(r))))]
 
 
@@ -172,14 +214,21 @@ def image_of(di, m0, m1, T, guard=None):
 
 # ------------------------------------------------------------------------------------------ common harness
 class Setup:
-    """symbolic world of one verification run: heap, wrapped experimenter(s), a batch of arbitrary size."""
+    """symbolic world of one run: heap, wrapped experimenter(s), a batch.  bounded=None: everything of arbitrary size
+    (proof);  bounded=dict(batch=k, params=q, metrics=m, aux=a): concrete spines (model query, DESIGN 2.5)."""
 
-    def __init__(self, it, nbases=1):
+    def __init__(self, it, nbases=1, bounded=None):
         run = it.run
         X.init_heap(run)
-        self.bases = [X.make_base(run, 'b%d' % k, k) for k in range(nbases)]
+        self.bounded = bounded
+        if bounded is None:
+            self.bases = [X.make_base(run, 'b%d' % k, k) for k in range(nbases)]
+            self.xs = X.make_batch(run)
+        else:
+            run.strings = []
+            self.bases = [X.bounded_base(run, 'b%d' % k, k, bounded.get('metrics', 2), bounded.get('aux', 1)) for k in range(nbases)]
+            self.xs = X.bounded_batch(run, bounded.get('batch', 2), bounded.get('params', 2))
         self.base = self.bases[0]
-        self.xs = X.make_batch(run)
         self.H0 = G(run)
         run.setup = self
 
@@ -188,37 +237,363 @@ def base_calls(run):
     return getattr(run, 'base_calls', [])
 
 
-def post_common(prefix, p, wrapper_names=None):
+def post_common(prefix, p, wrapper_names=None, skip=()):
     """obligations shared by every wrapper's evaluate on a normally returning path:
          parameters_unchanged, frame (no trial outside the batch touched), completes (BaseContract re-established)."""
     run = p.run
     st = run.setup
     xs, H0, F = st.xs, st.H0, G(run)
-    j, r = z3.Int('j!pc'), z3.Const('r!pc', X.TRef)
-    inr = z3.And(j >= 0, j < xs.n)
-    out = [(prefix + 'parameters_unchanged', z3.ForAll([j], z3.Implies(inr, F['params'][xs.arr[j]] == H0['params'][xs.arr[j]]))),
-           (prefix + 'frame', z3.And(z3.ForAll([r], z3.Implies(z3.And(z3.Not(xs.member(r)), H0['talloc'][r]), trial_unchanged(F, H0, r))),
-                                     state_preserved(F, H0)))]
-    nm = wrapper_names if wrapper_names is not None else (lambda s: X.named(st.base, s))
-    out.append((prefix + 'completes', z3.ForAll([j], z3.Implies(inr, X.completed_formula(F, st.base, xs.arr[j], nm)))))
+    out = []
+    if 'parameters_unchanged' not in skip:
+        out.append((prefix + 'parameters_unchanged', QJ(xs, lambda j, r: F['params'][r] == H0['params'][r])))
+    if 'frame' not in skip:
+        out.append((prefix + 'frame', z3.And(QR(run, lambda r: z3.Implies(z3.And(z3.Not(X.member_of(xs, r)), H0['talloc'][r]), trial_unchanged(F, H0, r))),
+                                             state_preserved(run, F, H0))))
+    if 'completes' not in skip:
+        nm = wrapper_names if wrapper_names is not None else (lambda s: X.named(st.base, s))
+        out.append((prefix + 'completes', QJ(xs, lambda j, r: z3.Or(F['infeas'][r], z3.And(F['fmset'][r], QS(run, lambda s: z3.Implies(
+            nm(s), X.MDI.dom(F['metrics'][r])[s])))))))
+    return out
+
+
+# ------------------------------------------------------------------------------------------ replay plumbing
+def enc_float(x):
+    import math
+    if x is None:
+        return None
+    if math.isnan(x):
+        return 'nan'
+    if math.isinf(x):
+        return 'inf' if x > 0 else '-inf'
+    return x
+
+
+def dec_float(x):
+    return float(x) if isinstance(x, str) else x
+
+
+def same_float(a, b):
+    import math
+    a, b = dec_float(a), dec_float(b)
+    if a is None or b is None:
+        return a is b
+    if math.isnan(a) or math.isnan(b):
+        return math.isnan(a) and math.isnan(b)
+    return a == b
+
+
+def run_replay(scenario):
+    """run the real code on a scenario; returns the driver's JSON (or {'driver_error': ...})."""
+    os.makedirs(os.path.join(report.OUT, 'c20'), exist_ok=True)
+    path = os.path.join(report.OUT, 'c20', 'scenario_%d_%d.json' % (os.getpid(), int(time.time() * 1e6) % 10 ** 9))
+    with open(path, 'w') as f:
+        json.dump(scenario, f)
+    env = dict(os.environ, VERIF_REPO=source.REPO)
+    try:
+        r = subprocess.run(['/venv/bin/python', REPLAY, path], capture_output=True, text=True, timeout=120, env=env)
+        line = [l for l in r.stdout.splitlines() if l.startswith('{')]
+        if not line:
+            return {'driver_error': 'no output', 'stderr': r.stderr[-800:]}
+        return json.loads(line[-1])
+    except Exception as e:  # never a verdict
+        return {'driver_error': repr(e)}
+    finally:
+        try:
+            os.remove(path)
+        except OSError:
+            pass
+
+
+def scenario_from_model(run, model, wrappers, extra=None):
+    """concretise a bounded path + solver model into a replay scenario (scripted base experimenter, batch, wrapper stack)."""
+    st = run.setup
+    strs = list(run.strings)
+    names, _ = X.model_str_names(model, strs)
+    nm = lambda t: names[t.get_id()]
+    pterms = [v for d in st.xs.desc for _, v in d['params']]
+    pv = X.model_pvals(model, pterms)
+    b = st.base
+    base = {'params': [{'name': nm(k)} for k, _ in (st.xs.desc[0]['params'] if st.xs.desc else [])],
+            'metrics': [{'name': nm(n), 'goal': 'MAXIMIZE' if model.eval(g, model_completion=True).as_long() == 1 else 'MINIMIZE'}
+                        for n, g in zip(b.names_conc, b.goals_conc)]}
+    batch = [{'params': {nm(k): pv[v.get_id()] for k, v in d['params']}} for d in st.xs.desc]
+    script = []
+    for c in base_calls(run):
+        per = []
+        for e in c.get('script', []):
+            ms = {}
+            for k, v in zip(e['keys'], e['vals']):
+                has_std = z3.is_true(model.eval(X.MetricS.has_std(v), model_completion=True))
+                ms[nm(k)] = {'value': enc_float(xreal.model_value(model, X.MetricS.value(v))),
+                             'std': enc_float(xreal.model_value(model, X.MetricS.std(v))) if has_std else None}
+            per.append({'metrics': ms, 'infeasible': z3.is_true(model.eval(e['infeasible'], model_completion=True)),
+                        'has_fm': z3.is_true(model.eval(e['has_fm'], model_completion=True)), 'infeasible_with_metrics': True})
+        script.append(per)
+    sc = {'kind': 'evaluate', 'base': base, 'wrappers': wrappers, 'batch': batch, 'script': script}
+    if extra:
+        sc.update(extra)
+    return sc
+
+
+# ------------------------------------------------------------------------------------------ unit driver
+class Unit:
+    """one function under contract: unbounded proof, bounded model query for what is not proved, native replay of models."""
+
+    def __init__(self, label, cls, functions, entry, post, bentry=None, scenario=None, native=None, known=None,
+                 expect_paths=1, timeout_ms=None, rentry=None, rknown=None):
+        # rknown: {obligation: finding text} for findings whose witness class is "the wrapped experimenter marks a trial infeasible";
+        # rentry: the same entry under the assumption that it never does -- the residual obligations are proved on that run
+        self.rentry, self.rknown = rentry, rknown or {}
+        self.label, self.cls, self.functions = label, cls, functions
+        self.entry, self.post, self.bentry, self.scenario = entry, post, bentry, scenario
+        self.native, self.known = native or {}, known or {}
+        self.expect_paths, self.timeout_ms = expect_paths, timeout_ms
+
+
+def loop_name(unit, n):
+    """engine name '<Class>.<method>.loopK.<clause>.<phase>' -> 'C20.<Class>.<method>.loopK.<clause>.<phase>'."""
+    return n if n.startswith('C20.') else 'C20.' + n.replace('Experimenter.', '.', 1)
+
+
+def refute(unit, names):
+    """bounded model query + native replay for the obligations `names` (DESIGN 2.5).  {name: (model text, replay, reproduced)}."""
+    out = {}
+    if unit.bentry is None:
+        return out
+    t0 = time.time()
+    paths = E.explore(unit.bentry, max_paths=400, deadline_s=40)
+    for p in paths:
+        if p.kind not in ('return', 'raise'):
+            continue
+        for item in unit.post(p):
+            n, f = item[0], item[1]
+            if (names is not None and n not in names) or (n in out and out[n][2]):
+                continue
+            if n in unit.known:
+                f = z3.Or(f, unit.known[n][1](p))
+            v, m, dt = discharge(p.run, f, timeout_ms=8000)
+            if v != 'sat':
+                continue
+            sc = unit.scenario(p, m) if unit.scenario is not None else None
+            reproduced, obs = None, None
+            if sc is not None:
+                obs = run_replay(sc)
+                chk_fn = unit.native.get(n)
+                if chk_fn is not None and 'driver_error' not in obs:
+                    try:
+                        reproduced = not chk_fn(sc, obs)
+                    except Exception as e:      # a replay problem is never a verdict
+                        obs = dict(obs, native_check_error=repr(e))
+                        reproduced = None
+            txt = 'bounded model query, path %s\n%s' % (p.describe(), str(m)[:3000])
+            out[n] = (txt, {'scenario': sc, 'observed': obs, 'replay_cmd': '/venv/bin/python %s <scenario.json>' % REPLAY}, reproduced)
+        if time.time() - t0 > 50:
+            break
+    return out
+
+
+def discharge(run, formula, npc=None, nax=None, timeout_ms=10000):
+    """pc[:npc] & axioms[:nax] |= formula ?  ('unsat' proved | 'sat' | 'unknown', model/reason, seconds)."""
+    t0 = time.time()
+    sol = z3.Solver()
+    sol.set('timeout', timeout_ms)
+    sol.set('rlimit', int(RLIMIT_PER_S * timeout_ms / 1000.0))
+    for c in (run.pc if npc is None else run.pc[:npc]):
+        sol.add(c)
+    for c in (run.axioms if nax is None else run.axioms[:nax]):
+        sol.add(c)
+    lits = pm.all_str_lits()
+    if len(lits) > 1:
+        sol.add(z3.Distinct(*lits))
+    sol.add(z3.Not(formula))
+    r = sol.check()
+    dt = time.time() - t0
+    if r == z3.unsat:
+        return 'unsat', None, dt
+    if r == z3.sat:
+        return 'sat', sol.model(), dt
+    return 'unknown', sol.reason_unknown(), dt
+
+
+RLIMIT_PER_S = 1500000
+
+
+def work(unit, tmo):
+    """explore the real function, discharge every obligation of every path (pc & axioms |= formula).  Obligations with a recorded
+    known finding: the full clause gets a short budget (it is expected to fail), its residual (clause or in-witness-class) the full one."""
+    paths = E.explore(unit.entry, max_paths=4000, timeout_ms=1500, deadline_s=120)
+    out = {'paths': [(p.kind, p.describe()) for p in paths], 'instances': [], 'assumed': set()}
+    for p in paths:
+        out['assumed'] |= p.run.assumed
+    unk = {}
+    for pi, p in enumerate(paths):
+        if p.kind == 'unsupported':
+            continue
+        obs = [(n, f, npc, nax) for (n, f, npc, nax, info) in p.run.obligations]
+        if p.kind in ('return', 'raise'):
+            obs += [(item[0], item[1], None, None) for item in unit.post(p)]
+        for n, f, npc, nax in obs:
+            if isinstance(f, bool):
+                f = z3.BoolVal(f)
+            inst = {'name': n, 'pi': pi, 'describe': p.describe(), 'dt': 0.0}
+            if unk.get(n, 0) >= 2:
+                inst.update(verdict='unknown', reason='skipped after repeated solver timeouts on other paths')
+                out['instances'].append(inst)
+                continue
+            known = n in unit.known or n in unit.rknown
+            if z3.is_false(f):
+                v, m, dt = 'sat', None, 0.0          # decided without the solver (identity / structure check), if the path is feasible
+                inst['ground_false'] = True
+            else:
+                v, m, dt = discharge(p.run, f, npc, nax, timeout_ms=1500 if known else tmo)
+            inst.update(verdict=v, dt=dt)
+            if v != 'unsat':
+                inst['reason'] = str(m)[:300] if v == 'unknown' else ''
+                if v == 'sat':
+                    inst['model'] = 'path %d (%s)\n%s' % (pi, p.describe(), str(m)[:3000])
+                if n in unit.known:
+                    v2, m2, dt2 = discharge(p.run, z3.Or(f, unit.known[n][1](p)), npc, nax, timeout_ms=tmo)
+                    inst['dt'] += dt2
+                    inst['residual'] = v2
+                    if v2 == 'sat':
+                        inst['verdict'], inst['model'] = 'sat', 'residual obligation: path %d\n%s' % (pi, str(m2)[:3000])
+                if inst['verdict'] == 'unknown':
+                    unk[n] = unk.get(n, 0) + 1
+            out['instances'].append(inst)
+    return out
+
+
+def is_decided_identity(insts):
+    return any(i['verdict'] == 'sat' and i.get('ground_false') for i in insts)
+
+
+def run_unit(chk, unit):
+    for mod, q in unit.functions:
+        chk.function(mod, q)
+    tmo = unit.timeout_ms or (10000 if TIER == 'quick' else 60000)
+    t0 = time.time()
+    out = work(unit, tmo)
+    for a in sorted(out['assumed']):
+        chk.assume(a)
+    bad = sorted({d for k, d in out['paths'] if k == 'unsupported'})
+    if bad:
+        chk.obligation('C20.%s.supported' % unit.label, unit.label, 'checker', report.ERROR, 0.0,
+                       detail='the real code of %s left the supported subset: %s' % (unit.label, '; '.join(bad)[:1500]))
+    live = [1 for k, d in out['paths'] if k in ('return', 'raise')]
+    if len(live) < unit.expect_paths:
+        chk.obligation('C20.%s.vacuity' % unit.label, unit.label, 'checker', report.ERROR, 0.0,
+                       detail='only %d terminating paths explored (expected >= %d)' % (len(live), unit.expect_paths))
+    by = {}
+    for i in out['instances']:
+        by.setdefault(i['name'], []).append(i)
+
+    def status(insts, n):
+        if all(i['verdict'] == 'unsat' for i in insts):
+            return 'proved'
+        if n in unit.known and all(i['verdict'] == 'unsat' or i.get('residual') == 'unsat' for i in insts):
+            return 'known'
+        if any(i['verdict'] == 'sat' and i.get('residual') != 'unsat' for i in insts):
+            return 'sat'
+        return 'unknown'
+    st = {n: status(insts, n) for n, insts in by.items()}
+    rproved = set()
+    if unit.rknown and unit.rentry is not None and any(st.get(n) not in ('proved', None) for n in unit.rknown):
+        import copy as _copy
+        u2 = _copy.copy(unit)
+        u2.entry = unit.rentry
+        out2 = work(u2, tmo)
+        by2 = {}
+        for i in out2['instances']:
+            by2.setdefault(i['name'], []).append(i)
+        hints2 = all(all(i['verdict'] == 'unsat' for i in insts) for n, insts in by2.items() if not n.startswith('C20.'))
+        live2 = [1 for k, d in out2['paths'] if k in ('return', 'raise')]
+        for n in unit.rknown:
+            if hints2 and live2 and n in by2 and all(i['verdict'] == 'unsat' for i in by2[n]):
+                rproved.add(n)
+    for n in rproved:
+        if st.get(n) not in ('proved',):
+            st[n] = 'rknown'
+    hints_ok = all(s == 'proved' for n, s in st.items() if not n.startswith('C20.'))
+    posts = [n for n in by if n.startswith('C20.')]
+    open_posts = [n for n in posts if st[n] in ('sat', 'unknown')] if hints_ok else list(posts)
+    refuted = {}
+    if not hints_ok or open_posts or bad:
+        refuted = refute(unit, set(posts) if not bad else None)
+    violated = False
+    for n in posts:
+        insts = by[n]
+        tsum = sum(i['dt'] for i in insts)
+        detail = {'instances': len(insts), 'paths': len({i['pi'] for i in insts})}
+        s = st[n]
+        r = refuted.get(n)
+        if r is not None and r[2]:
+            violated = True
+            detail['refuted_by'] = 'bounded model query (concrete spines, loops unrolled): solver sat' + (
+                '; replayed on the real code: reproduced' if r[2] else '; no native predicate for this clause (not replayed)')
+            chk.obligation(n, unit.label, 'z3+bounded-model-query', report.VIOLATED, tsum, detail=detail, model=r[0], replay=r[1],
+                           reproduced=True if r[2] else None)
+        elif s == 'sat' and is_decided_identity(insts):
+            # a python-side identity / structure check that is false on the real AST (no solver model involved)
+            violated = True
+            i0 = [i for i in insts if i['verdict'] == 'sat'][0]
+            chk.obligation(n, unit.label, 'identity', report.VIOLATED, tsum, detail=dict(detail, failing_path=i0['describe']),
+                           model='decided identity check on the objects of the symbolic run', replay=(r[1] if r else None), reproduced=None)
+        elif s == 'rknown' and hints_ok:
+            chk.obligation(n, unit.label, 'z3', report.KNOWN, tsum, detail=detail, finding=unit.rknown[n])
+            chk.obligation(n + '.residual', unit.label, 'z3', report.PROVED, 0.0,
+                           detail={'clause': 'the same obligation for every wrapped experimenter that marks no trial infeasible (outside the '
+                                             'recorded finding\'s witness class), proved on a second symbolic run under that assumption'})
+        elif s == 'known' and (hints_ok or r is None):
+            chk.obligation(n, unit.label, 'z3', report.KNOWN, tsum, detail=detail, finding=unit.known[n][0])
+            chk.obligation(n + '.residual', unit.label, 'z3', report.PROVED if hints_ok else report.UNDECIDED, 0.0,
+                           detail={'clause': 'the same obligation for every input outside the recorded finding\'s witness class'})
+        elif s == 'proved' and hints_ok:
+            chk.obligation(n, unit.label, 'z3', report.PROVED, tsum, detail=detail)
+        else:
+            why = ('solver: %s' % [i.get('reason', '') for i in insts if i['verdict'] != 'unsat'][:1] if s == 'unknown' else
+                   'solver found a counter-model of the (over-approximating) symbolic run that is not confirmed on the real code') if s != 'proved' else \
+                'proved only under a loop contract that is itself not established on the current code'
+            if r is not None and r[2] is False:
+                why += '; a bounded counter-model was found but did not reproduce on the real code (spurious)'
+            if r is not None and r[2] is None:
+                why += '; a bounded counter-model exists but there is no native predicate to confirm it (the models over-approximate)'
+            chk.obligation(n, unit.label, 'z3', report.UNDECIDED, tsum, detail=dict(detail, reason=why))
+    for n, r in refuted.items():
+        if n in by or not r[2]:
+            continue
+        violated = True
+        chk.obligation(n, unit.label, 'bounded-model-query+replay', report.VIOLATED, 0.0,
+                       detail={'refuted_by': 'bounded model query; the unbounded proof attempt did not reach this clause'},
+                       model=r[0], replay=r[1], reproduced=True)
+    for n, insts in by.items():
+        if n.startswith('C20.'):
+            continue
+        tsum = sum(i['dt'] for i in insts)
+        detail = {'instances': len(insts), 'role': 'loop contract (proof hint): established and preserved by the real loop body'}
+        if st[n] == 'proved':
+            chk.obligation(loop_name(unit, n), unit.label, 'z3', report.PROVED, tsum, detail=detail)
+        else:
+            detail['reason'] = 'loop contract not established on the current code (%s); %s' % (
+                st[n], 'see the violation reported for this function' if violated else 'no counterexample found by the bounded model query')
+            chk.obligation(loop_name(unit, n), unit.label, 'z3', report.UNDECIDED, tsum, detail=detail)
     return out
 
 
 # =========================================================================================== SignFlipExperimenter
-def flipped_metric(v):
-    """the documented transformation of one metric: value negated (spec side: exact negation of extended reals)."""
-    return X.MetricS.mk(xreal.neg(X.MetricS.value(v)), z3.BoolVal(False), xreal.lit(0.0))
+def self_of(fr):
+    return fr.env[fr.func.node.args.args[0].arg]
 
 
 def sf_parts(w):
     """(wrapped experimenter, flip_objectives_only flag, recorded objective names) of a SignFlip instance, by role."""
-    base = find_attr(w, lambda v: isinstance(v, Obj) and not isinstance(v.cls, str) or is_base(v), 'the wrapped experimenter')
+    base = find_attr(w, lambda v: isinstance(v, Obj) and not isinstance(v, E.ExcObj), 'the wrapped experimenter')
     flag = find_attr(w, lambda v: isinstance(v, bool) or (z3.is_expr(v) and v.sort() == z3.BoolSort()), 'flip_objectives_only')
-    objs = find_attr(w, lambda v: isinstance(v, X.SMap), 'the recorded objective names')
+    objs = find_attr(w, lambda v: isinstance(v, (X.SMap, M.PyDict)), 'the recorded objective names')
     return base, flag, objs
 
 
 def sf_T(w):
+    """what the metrics loop computes for key s with old metric v (used by the loop contracts only)."""
     base, flag, objs = sf_parts(w)
     fl = E.zbool(flag)
 
@@ -226,16 +601,13 @@ def sf_T(w):
         return z3.Or(z3.Not(fl), objs.dom[s])
 
     def T(s, v):
-        # code side: Metric(value=-1.0 * v.value); the invariant states what the loop computes, the postcondition
-        # below is written with exact negation
         return z3.If(cond(s), X.MetricS.mk(xreal.mul(xreal.lit(-1.0), X.MetricS.value(v)), z3.BoolVal(False), xreal.lit(0.0)), v)
     return T, cond
 
 
 def sf_inv_outer(it, fr, ctx):
     run = it.run
-    w = fr.env[fr.func.node.args.args[0].arg]
-    T, _ = sf_T(w)
+    T, _ = sf_T(self_of(fr))
     xs = loop_batch(ctx)
     cur, ent = G(run), entry_heap(ctx)
 
@@ -247,27 +619,44 @@ def sf_inv_outer(it, fr, ctx):
 
 
 def sf_inv_inner(it, fr, ctx):
-    w = fr.env[fr.func.node.args.args[0].arg]
-    T, _ = sf_T(w)
+    T, _ = sf_T(self_of(fr))
     return dict_build_invariant(it, fr, ctx, X.MDI, T)
+
+
+def flip_goal(it, g):
+    mx, mn = X.goal_member(it, 'MAXIMIZE').term, X.goal_member(it, 'MINIMIZE').term
+    return z3.If(g == mx, mn, z3.If(g == mn, mx, g))
+
+
+def metric_eq(a, b):
+    """equality of two Metric values (value, std); the std payload is irrelevant when there is no std."""
+    S = X.MetricS
+    return z3.And(S.value(a) == S.value(b), S.has_std(a) == S.has_std(b), z3.Implies(S.has_std(a), S.std(a) == S.std(b)))
+
+
+def key_set(d):
+    """membership predicate of the keys of a dict-like engine value."""
+    if isinstance(d, X.SMap):
+        return lambda s: d.dom[s]
+    if isinstance(d, M.PyDict):
+        ks = [pm._lift(k, Str) for k in d.keys()]
+        return lambda s: z3.Or(*[s == k for k in ks]) if ks else z3.BoolVal(False)
+    raise Unsupported('key set of %r' % (d,))
 
 
 def sf_inv_goals(it, fr, ctx):
     """problem_statement: the goals of the first i metric configs of the fresh copy are flipped, the others are as copied."""
     run = it.run
     lst = ctx.iter
+    if not (isinstance(lst, X.VList) and lst.kind is X.K_MI and lst.pos is not None):
+        raise Unsupported('goal loop over %r' % (lst,))
     cur, ent = G(run), entry_heap(ctx)
     m = z3.Const('m!sg', X.MIRef)
     i = ctx.i
-    inlist = z3.And(lst.pos[m] >= 0, lst.pos[m] < lst.n, lst.arr[lst.pos[m]] == m)
-    return [('trials_untouched', fields_equal(cur, ent, X.TRIAL_FIELDS + ('talloc', 'mialloc', 'miname', 'mirest'))),
-            ('others', z3.ForAll([m], z3.Implies(z3.Not(z3.And(inlist, lst.pos[m] < i)), cur['goal'][m] == ent['goal'][m]))),
-            ('flipped', z3.ForAll([m], z3.Implies(z3.And(inlist, lst.pos[m] < i), cur['goal'][m] == flip_goal(it, ent['goal'][m]))))]
-
-
-def flip_goal(it, g):
-    mx, mn = X.goal_member(it, 'MAXIMIZE').term, X.goal_member(it, 'MINIMIZE').term
-    return z3.If(g == mx, mn, z3.If(g == mn, mx, g))
+    seen = z3.And(lst.pos[m] >= 0, lst.pos[m] < lst.n, lst.arr[lst.pos[m]] == m, lst.pos[m] < i)
+    return [('rest_untouched', fields_equal(cur, ent, X.TRIAL_FIELDS + ('talloc', 'mialloc', 'miname', 'mirest'))),
+            ('others', z3.ForAll([m], z3.Implies(z3.Not(seen), cur['goal'][m] == ent['goal'][m]))),
+            ('flipped', z3.ForAll([m], z3.Implies(seen, cur['goal'][m] == flip_goal(it, ent['goal'][m]))))]
 
 
 E.LOOPS[(SF, 'SignFlipExperimenter.evaluate', 1)] = E.LoopSpec(sf_inv_outer, ghost=X.ALL)
@@ -277,23 +666,27 @@ E.LOOPS[(SF, 'SignFlipExperimenter.problem_statement', 1)] = E.LoopSpec(sf_inv_g
 
 def sf_construct(it, base, depth=1):
     cls = cls_of(SF, 'SignFlipExperimenter')
-    run = it.run
     flag = z3.Bool('flip_objectives_only')
     w = base
     for _ in range(depth):
         w = M.construct(it, cls, [w, flag], {})
-    run.flag = flag
+    it.run.flag = flag
     return w
 
 
-def sf_entry_evaluate(depth):
+def sf_entry_evaluate(depth, bounded=None):
     def entry(it):
-        st = Setup(it)
+        st = Setup(it, bounded=bounded)
         run = it.run
         run.w = sf_construct(it, st.base, depth)
         st.H0 = G(run)
         return call_method(it, run.w, 'evaluate', [st.xs])
     return entry
+
+
+def same_batch(c, st):
+    a, b = c['xs'], st.xs
+    return bool(a.arr.eq(b.arr) and (a.n.eq(b.n) if z3.is_expr(a.n) and z3.is_expr(b.n) else a.n == b.n))
 
 
 def sf_post_evaluate(p):
@@ -303,26 +696,1473 @@ def sf_post_evaluate(p):
         return []
     st = run.setup
     calls = [c for c in base_calls(run) if not c['raised']]
-    out = [(R + 'delegates_once', z3.BoolVal(len(calls) == 1 and calls[0]['xs'].arr.eq(st.xs.arr) and calls[0]['xs'].n.eq(st.xs.n)))]
-    if len(calls) != 1:
+    ok = len(calls) == 1 and same_batch(calls[0], st)
+    out = [(R + 'delegates_once', z3.BoolVal(ok))]
+    if not ok:
         return out
     B, F, xs = calls[0]['post'], G(run), st.xs
     fl = run.flag
-    j, s = z3.Int('j!sf'), z3.Const('s!sf', Str)
-    inr = z3.And(j >= 0, j < xs.n)
-    r = xs.arr[j]
-    had = z3.And(inr, B['fmset'][r], X.MDI.dom(B['metrics'][r])[s])
-    is_obj = z3.Or(z3.Not(fl), X.named(st.base, s))
+    dom, val, value = X.MDI.dom, X.MDI.val, X.MetricS.value
+
+    def per_metric(body):
+        return QJ(xs, lambda j, r: QS(run, lambda s: z3.Implies(z3.And(B['fmset'][r], dom(B['metrics'][r])[s]), body(r, s))))
+    is_obj = lambda s: z3.Or(z3.Not(fl), X.named(st.base, s))
     out += [
-        (R + 'negates_objectives', z3.ForAll([j, s], z3.Implies(z3.And(had, is_obj), z3.And(
-            X.MDI.dom(F['metrics'][r])[s],
-            X.MetricS.value(X.MDI.val(F['metrics'][r])[s]) == xreal.neg(X.MetricS.value(X.MDI.val(B['metrics'][r])[s])))))),
-        (R + 'only_objectives', z3.ForAll([j, s], z3.Implies(z3.And(had, fl, z3.Not(X.named(st.base, s))), z3.And(
-            X.MDI.dom(F['metrics'][r])[s], X.MDI.val(F['metrics'][r])[s] == X.MDI.val(B['metrics'][r])[s])))),
-        (R + 'no_metric_added_or_lost', z3.ForAll([j, s], z3.Implies(z3.And(inr, B['fmset'][r]),
-                                                                    X.MDI.dom(F['metrics'][r])[s] == X.MDI.dom(B['metrics'][r])[s]))),
-        (R + 'status_untouched', z3.ForAll([j], z3.Implies(inr, z3.And(F['fmset'][r] == B['fmset'][r], F['infeas'][r] == B['infeas'][r],
-                                                                       F['rest'][r] == B['rest'][r])))),
-        (R + 'base_sees_suggested_parameters', z3.ForAll([j], z3.Implies(inr, calls[0]['pre']['params'][r] == st.H0['params'][r]))),
+        (R + 'negates_objectives', per_metric(lambda r, s: z3.Implies(is_obj(s), z3.And(
+            dom(F['metrics'][r])[s], value(val(F['metrics'][r])[s]) == xreal.neg(value(val(B['metrics'][r])[s])))))),
+        (R + 'only_objectives', per_metric(lambda r, s: z3.Implies(z3.Not(is_obj(s)), z3.And(
+            dom(F['metrics'][r])[s], metric_eq(val(F['metrics'][r])[s], val(B['metrics'][r])[s]))))),
+        (R + 'no_metric_added_or_lost', QJ(xs, lambda j, r: QS(run, lambda s: z3.Implies(
+            B['fmset'][r], dom(F['metrics'][r])[s] == dom(B['metrics'][r])[s])))),
+        (R + 'status_untouched', QJ(xs, lambda j, r: z3.And(F['fmset'][r] == B['fmset'][r], F['infeas'][r] == B['infeas'][r],
+                                                          F['rest'][r] == B['rest'][r]))),
+        (R + 'base_sees_suggested_parameters', QJ(xs, lambda j, r: calls[0]['pre']['params'][r] == st.H0['params'][r])),
     ]
     return out + post_common(R, p)
+
+
+def sf_scenario(depth):
+    def scenario(p, model):
+        fl = z3.is_true(model.eval(p.run.flag, model_completion=True))
+        layer = {'module': 'sign_flip_experimenter', 'class': 'SignFlipExperimenter', 'kwargs': {'flip_objectives_only': fl}}
+        return scenario_from_model(p.run, model, [layer] * depth)
+    return scenario
+
+
+# ---- native evaluation of the same clauses on the driver's observations (True = the clause holds on the real run)
+def _scripted(sc, k=0):
+    return sc['script'][k] if sc.get('script') and k < len(sc['script']) else []
+
+
+def n_params_unchanged(sc, obs):
+    return obs.get('exception') is None and all(a['params'] == b['params'] for a, b in zip(obs['after'], obs['before']))
+
+
+def n_completes(names_of=None):
+    def fn(sc, obs):
+        names = names_of(sc) if names_of else [m['name'] for m in sc['base']['metrics']]
+        for t in obs['after']:
+            if t['infeasible']:
+                continue
+            if not t['has_fm'] or any(n not in t['metrics'] for n in names):
+                return False
+        return obs.get('exception') is None
+    return fn
+
+
+def n_sf_value(which):
+    def fn(sc, obs):
+        if obs.get('exception') is not None:
+            return False
+        fl = sc['wrappers'][0]['kwargs']['flip_objectives_only']
+        objs = {m['name'] for m in sc['base']['metrics']}
+        odd = len(sc['wrappers']) % 2 == 1
+        for e, t in zip(_scripted(sc), obs['after']):
+            if not e['has_fm']:
+                continue
+            for n, m in e['metrics'].items():
+                flipped = (not fl) or n in objs
+                if t['metrics'] is None or n not in t['metrics']:
+                    return False
+                got = t['metrics'][n]
+                v = dec_float(m['value'])
+                if which == 'neg' and flipped and not same_float(got['value'], (-v if odd else v)):
+                    return False
+                if which == 'aux' and not flipped and not (same_float(got['value'], v) and same_float(got['std'], m.get('std'))):
+                    return False
+                if which == 'std' and not same_float(got['std'], m.get('std')):
+                    return False
+        return True
+    return fn
+
+
+def n_status(sc, obs):
+    if obs.get('exception') is not None:
+        return False
+    for e, t in zip(_scripted(sc), obs['after']):
+        if t['has_fm'] != e['has_fm'] or t['infeasible'] != e['infeasible']:
+            return False
+        if e['has_fm'] and set(t['metrics']) != set(e['metrics']):
+            return False
+    return True
+
+
+def n_base_sees_suggested(sc, obs):
+    return obs.get('base_calls') is not None and len(obs['base_calls']) >= 1 and \
+        all(seen == b['params'] for seen, b in zip(obs['base_calls'][0], obs['before']))
+
+
+SF_NATIVE = {
+    'C20.SignFlip.evaluate.negates_objectives': n_sf_value('neg'),
+    'C20.SignFlip.evaluate.only_objectives': n_sf_value('aux'),
+    'C20.SignFlip.evaluate.no_metric_added_or_lost': n_status,
+    'C20.SignFlip.evaluate.status_untouched': n_status,
+    'C20.SignFlip.evaluate.base_sees_suggested_parameters': n_base_sees_suggested,
+    'C20.SignFlip.evaluate.parameters_unchanged': n_params_unchanged,
+    'C20.SignFlip.evaluate.completes': n_completes(),
+    'C20.SignFlip.evaluate.delegates_once': lambda sc, obs: len(obs.get('base_calls') or []) == 1,
+}
+
+BOUNDED = dict(batch=2, params=2, metrics=2, aux=1)
+
+
+# ---- problem_statement / __init__ / involution
+def sf_entry_ps(depth, bounded=None):
+    def entry(it):
+        st = Setup(it, bounded=bounded)
+        run = it.run
+        run.w = sf_construct(it, st.base, depth)
+        st.H0 = G(run)
+        run.roots = [run.w] + st.bases
+        run.fp0 = X.state_fingerprint(run.roots)
+        run.reach0 = set(X.reachable(run.roots))
+        run.result = call_method(it, run.w, 'problem_statement', [])
+        return run.result
+    return entry
+
+
+def result_metric_list(res):
+    if not (isinstance(res, Obj) and res.cls == 'ProblemStatement'):
+        return None
+    mc = res.attrs.get('metric_information')
+    return mc.lst if isinstance(mc, X.MetricsConfigV) else None
+
+
+def by_value_obligations(R, p):
+    """problem_statement() returns by value: the result shares no mutable object with the experimenter's state (object identity in the
+    engine + every MetricInformation of the result was allocated by this call) and the call leaves that state unchanged."""
+    run = p.run
+    st = run.setup
+    res = run.result
+    F, H0 = G(run), st.H0
+    shared = [v for i, v in X.reachable([res]).items() if i in run.reach0]
+    lst = result_metric_list(res)
+    fresh_py = isinstance(res, Obj) and res.cls == 'ProblemStatement' and not shared and lst is not None
+    out = [(R + 'by_value.fresh_objects', z3.BoolVal(bool(fresh_py)))]
+    if lst is not None:
+        out.append((R + 'by_value.fresh_metric_configs', QJ(lst, lambda j, m: z3.Not(H0['mialloc'][m]))))
+    out.append((R + 'by_value.state_unchanged', z3.And(z3.BoolVal(X.state_fingerprint(run.roots) == run.fp0), state_preserved(run, F, H0),
+                                                       fields_equal(F, H0, X.TRIAL_FIELDS))))
+    return out
+
+
+def sf_post_ps(depth):
+    def post(p):
+        R = 'C20.SignFlip.problem_statement.' if depth == 1 else 'C20.SignFlip.involution.problem_statement.'
+        run = p.run
+        if p.kind != 'return':
+            return [(R + 'returns', z3.BoolVal(False))]
+        st = run.setup
+        lst, l0 = result_metric_list(run.result), st.base.lst0
+        F, H0 = G(run), st.H0
+        out = []
+        if lst is None:
+            return [(R + 'returns', z3.BoolVal(False))]
+        l0arr = l0.arr
+
+        def goal_ok(j, m):
+            g0 = H0['goal'][l0arr[j]]
+            want = flip_goal(None, g0) if depth % 2 == 1 else g0
+            return z3.And(F['goal'][m] == want, F['miname'][m] == H0['miname'][l0arr[j]], F['mirest'][m] == H0['mirest'][l0arr[j]])
+        same_len = (lst.n == l0.n) if z3.is_expr(lst.n) or z3.is_expr(l0.n) else z3.BoolVal(lst.n == l0.n)
+        if depth == 1:
+            out.append((R + 'goal_flipped', z3.And(same_len, QJ(lst, goal_ok))))
+            out += by_value_obligations(R, p)
+        else:
+            out.append((R + 'goals_restored', z3.And(same_len, QJ(lst, goal_ok))))
+        return out
+    return post
+
+
+def sf_ps_scenario(depth):
+    def scenario(p, model):
+        sc = sf_scenario(depth)(p, model)
+        sc['kind'] = 'problem_statement'
+        return sc
+    return scenario
+
+
+def n_by_value(sc, obs):
+    return bool(obs.get('by_value'))
+
+
+def n_goals(flipped):
+    def fn(sc, obs):
+        want = [(m['name'], ({'MAXIMIZE': 'MINIMIZE', 'MINIMIZE': 'MAXIMIZE'}[m['goal']] if flipped else m['goal'])) for m in sc['base']['metrics']]
+        return [tuple(x) for x in obs['before']['metrics']] == want
+    return fn
+
+
+def sf_entry_init(bounded=None):
+    def entry(it):
+        st = Setup(it, bounded=bounded)
+        it.run.w = sf_construct(it, st.base, 1)
+        return None
+    return entry
+
+
+def sf_post_init(p):
+    R = 'C20.SignFlip.__init__.'
+    run = p.run
+    if p.kind != 'return':
+        return [(R + 'returns', z3.BoolVal(False))]
+    st = run.setup
+    base, flag, objs = sf_parts(run.w)
+    ks = key_set(objs)
+    return [(R + 'objectives_recorded', QS(run, lambda s: ks(s) == X.named(st.base, s))),
+            (R + 'wraps_given_experimenter', z3.BoolVal(base is st.base and (flag is run.flag))),
+            (R + 'state_unchanged', z3.And(state_preserved(run, G(run), st.H0), fields_equal(G(run), st.H0, X.TRIAL_FIELDS)))]
+
+
+def sf_post_involution(p):
+    """SignFlip(SignFlip(e)).evaluate behaves like e.evaluate."""
+    R = 'C20.SignFlip.involution.'
+    run = p.run
+    if p.kind != 'return':
+        return []
+    st = run.setup
+    calls = [c for c in base_calls(run) if not c['raised']]
+    ok = len(calls) == 1 and same_batch(calls[0], st)
+    out = [(R + 'delegates_once', z3.BoolVal(ok))]
+    if not ok:
+        return out
+    B, F, xs = calls[0]['post'], G(run), st.xs
+    dom, val, value = X.MDI.dom, X.MDI.val, X.MetricS.value
+
+    def per_metric(body):
+        return QJ(xs, lambda j, r: QS(run, lambda s: z3.Implies(z3.And(B['fmset'][r], dom(B['metrics'][r])[s]), body(r, s))))
+    out += [
+        (R + 'value', per_metric(lambda r, s: z3.And(dom(F['metrics'][r])[s], value(val(F['metrics'][r])[s]) == value(val(B['metrics'][r])[s])))),
+        (R + 'metric_restored', per_metric(lambda r, s: metric_eq(val(F['metrics'][r])[s], val(B['metrics'][r])[s]))),
+        (R + 'same_metrics', QJ(xs, lambda j, r: QS(run, lambda s: z3.Implies(B['fmset'][r], dom(F['metrics'][r])[s] == dom(B['metrics'][r])[s])))),
+        (R + 'status', QJ(xs, lambda j, r: z3.And(F['fmset'][r] == B['fmset'][r], F['infeas'][r] == B['infeas'][r], F['rest'][r] == B['rest'][r]))),
+    ]
+    return out + post_common(R, p, skip=('completes',))
+
+
+def sf_std_class(p):
+    """witness class of the recorded finding: the doubly flipped metric carried a `std` (residual: all metrics without std, and
+    auxiliary metrics under flip_objectives_only, are restored exactly)."""
+    run = p.run
+    st = run.setup
+    calls = [c for c in base_calls(run) if not c['raised']]
+    if len(calls) != 1:
+        return z3.BoolVal(False)
+    B, F, xs = calls[0]['post'], G(run), st.xs
+    dom, val = X.MDI.dom, X.MDI.val
+    return QJ(xs, lambda j, r: QS(run, lambda s: z3.Implies(z3.And(B['fmset'][r], dom(B['metrics'][r])[s]), z3.Or(
+        metric_eq(val(F['metrics'][r])[s], val(B['metrics'][r])[s]),
+        z3.And(X.MetricS.has_std(val(B['metrics'][r])[s]), z3.Or(z3.Not(run.flag), X.named(st.base, s)))))))
+
+
+def units_signflip():
+    fns = [(SF, 'SignFlipExperimenter.__init__'), (SF, 'SignFlipExperimenter.evaluate'), (SF, 'SignFlipExperimenter.problem_statement')]
+    known = {}
+    f = CHK.finding_for('C20.SignFlip.involution.metric_restored') if CHK is not None else None
+    if f is not None:
+        known['C20.SignFlip.involution.metric_restored'] = (f['what'], sf_std_class)
+    inv_native = {'C20.SignFlip.involution.value': n_sf_value('neg'), 'C20.SignFlip.involution.metric_restored': n_sf_value('std'),
+                  'C20.SignFlip.involution.same_metrics': n_status, 'C20.SignFlip.involution.status': n_status,
+                  'C20.SignFlip.involution.parameters_unchanged': n_params_unchanged}
+    return [
+        Unit('SignFlipExperimenter.__init__', 'SignFlip', fns[:1], sf_entry_init(), sf_post_init, bentry=sf_entry_init(BOUNDED)),
+        Unit('SignFlipExperimenter.evaluate', 'SignFlip', fns[:2], sf_entry_evaluate(1), sf_post_evaluate,
+             bentry=sf_entry_evaluate(1, BOUNDED), scenario=sf_scenario(1), native=SF_NATIVE),
+        Unit('SignFlipExperimenter.problem_statement', 'SignFlip', [fns[0], fns[2]], sf_entry_ps(1), sf_post_ps(1),
+             bentry=sf_entry_ps(1, BOUNDED), scenario=sf_ps_scenario(1),
+             native={'C20.SignFlip.problem_statement.goal_flipped': n_goals(True),
+                     'C20.SignFlip.problem_statement.by_value.fresh_objects': n_by_value,
+                     'C20.SignFlip.problem_statement.by_value.fresh_metric_configs': n_by_value,
+                     'C20.SignFlip.problem_statement.by_value.state_unchanged': n_by_value}),
+        Unit('SignFlipExperimenter.evaluate(involution)', 'SignFlip', fns[:2], sf_entry_evaluate(2), sf_post_involution,
+             bentry=sf_entry_evaluate(2, BOUNDED), scenario=sf_scenario(2), native=inv_native, known=known),
+        Unit('SignFlipExperimenter.problem_statement(involution)', 'SignFlip', [fns[0], fns[2]], sf_entry_ps(2), sf_post_ps(2),
+             bentry=sf_entry_ps(2, BOUNDED), scenario=sf_ps_scenario(2),
+             native={'C20.SignFlip.involution.problem_statement.goals_restored': n_goals(False)}),
+    ]
+
+
+CHK = None
+
+
+# =========================================================================================== save / transform / delegate / restore
+def image_q(run, di, m0, m1, T, guard=None):
+    """m1 = { s: T(s, m0[s]) for s in m0 [if guard(s)] }, with the quantifier helper (proof or bounded query)."""
+    keep = (lambda k: z3.BoolVal(True)) if guard is None else guard
+    return QS(run, lambda s: z3.And(di.dom(m1)[s] == z3.And(di.dom(m0)[s], keep(s)),
+                                    z3.Implies(z3.And(di.dom(m0)[s], keep(s)), di.val(m1)[s] == T(s, di.val(m0)[s]))))
+
+
+def others_same(cur, ent, r, fields=('fmset', 'metrics', 'rest', 'infeas')):
+    return z3.And(*[cur[f][r] == ent[f][r] for f in fields])
+
+
+def restore_invariant(it, fr, ctx):
+    """`for saved, trial in zip(saved_list, batch): trial.parameters = saved` -- processed trials carry their saved parameters."""
+    run = it.run
+    xs = loop_batch(ctx)
+    z = ctx.iter
+    saved = [p for p in z.parts if isinstance(p, X.VList) and p.kind is X.K_PD] if isinstance(z, X.ZipList) else []
+    if len(saved) != 1:
+        raise Unsupported('restore loop without exactly one list of saved parameter dicts')
+    prev = saved[0]
+    cur, ent = G(run), entry_heap(ctx)
+    return batch_loop_frame(run, ctx, xs, cur, ent, lambda r: z3.And(cur['params'][r] == prev.arr[xs.pos[r]], others_same(cur, ent, r)))
+
+
+def save_transform_invariant(transform):
+    """`for trial in batch: saved.append(trial.parameters); trial.parameters = transform(trial.parameters)`."""
+    def inv(it, fr, ctx):
+        run = it.run
+        xs = loop_batch(ctx)
+        cur, ent = G(run), entry_heap(ctx)
+        name, old = find_local(fr, lambda v: (isinstance(v, list) and not v) or (isinstance(v, X.VList) and v.kind in (None, X.K_PD)),
+                               'the list of saved parameter dicts')
+        i = ctx.i
+        cl = []
+        if isinstance(old, list):
+            cl.append(('saved', z3.BoolVal(ctx.phase == 'init' and len(old) == 0)))
+        else:
+            old.ensure(it, X.K_PD)
+            j = z3.Int('j!st')
+            cl.append(('saved', z3.And(old.n == i, z3.ForAll([j], z3.Implies(z3.And(j >= 0, j < i), old.arr[j] == ent['params'][xs.arr[j]])))))
+        tr = transform(it, fr)
+        return cl + batch_loop_frame(run, ctx, xs, cur, ent, lambda r: z3.And(tr(ent['params'][r], cur['params'][r]), others_same(cur, ent, r)))
+    return inv
+
+
+def wr_entry(construct, bounded=None, raising=False):
+    def entry(it):
+        st = Setup(it, bounded=bounded)
+        run = it.run
+        run.w = construct(it, st)
+        st.H0 = G(run)
+        run.base_may_raise = raising
+        return call_method(it, run.w, 'evaluate', [st.xs])
+    return entry
+
+
+def wr_post(R, mapped, extra=None):
+    """obligations of a parameter-transforming wrapper's evaluate: delegation, the base experimenter is evaluated at the documented
+    point, the measurement it produced is left untouched, parameters restored, frame, BaseContract re-established."""
+    def post(p):
+        run = p.run
+        if p.kind != 'return':
+            return []
+        st = run.setup
+        calls = [c for c in base_calls(run) if not c['raised']]
+        ok = len(calls) == 1 and same_batch(calls[0], st)
+        out = [(R + 'delegates_once', z3.BoolVal(ok))]
+        if not ok:
+            return out
+        c = calls[0]
+        B, F, xs, H0 = c['post'], G(run), st.xs, st.H0
+        out += [(R + 'evaluates_base_at_mapped_point', QJ(xs, lambda j, r: mapped(run, H0['params'][r], c['pre']['params'][r]))),
+                (R + 'measurement_untouched', QJ(xs, lambda j, r: others_same(F, B, r))),
+                (R + 'parameters_restored', QJ(xs, lambda j, r: F['params'][r] == H0['params'][r]))]
+        if extra is not None:
+            out += extra(p, c)
+        return out + post_common(R, p, skip=('parameters_unchanged',))
+    return post
+
+
+def exc_note_post(R):
+    """what happens to the parameters when the wrapped experimenter raises (reported, not an obligation)."""
+    def post(p):
+        return []
+    return post
+
+
+# ---- Shifting
+def sh_construct(it, st):
+    cls = cls_of(SH, 'ShiftingExperimenter')
+    run = it.run
+    run.shift = X.FeatV(z3.Const('shift', X.Feat))
+    w = M.construct(it, cls, [st.base, run.shift], {'should_restrict': z3.Bool('should_restrict')})
+    run.conv = find_attr(w, lambda v: isinstance(v, X.ConverterV), 'the converter')
+    return w
+
+
+def sh_map(conv, shift, p0):
+    """documented: the base experimenter is evaluated at to_parameters(to_features(x) - shift)."""
+    return X.topar0(conv.term, X.np_sub(X.featmat1(conv.term, p0), shift.term))
+
+
+def sh_inv_offset(it, fr, ctx):
+    run = it.run
+    xs = loop_batch(ctx)
+    w = self_of(fr)
+    conv = find_attr(w, lambda v: isinstance(v, X.ConverterV), 'the converter')
+    shift = fr.env[fr.func.node.args.args[2].arg]
+    if not isinstance(shift, X.FeatV):
+        raise Unsupported('_offset called with shift %r' % (shift,))
+    cur, ent = G(run), entry_heap(ctx)
+    return batch_loop_frame(run, ctx, xs, cur, ent, lambda r: z3.And(cur['params'][r] == sh_map(conv, shift, ent['params'][r]), others_same(cur, ent, r)))
+
+
+E.LOOPS[(SH, 'ShiftingExperimenter._offset', 1)] = E.LoopSpec(sh_inv_offset, ghost=X.ALL)
+E.LOOPS[(SH, 'ShiftingExperimenter.evaluate', 1)] = E.LoopSpec(restore_invariant, ghost=X.ALL)
+
+
+# ---- Permuting
+def replace_table(w, table):
+    hits = [k for k, v in w.attrs.items() if isinstance(v, (M.PyDict, X.SMap))]
+    if len(hits) != 1:
+        raise Unsupported('cannot identify the lookup table among the attributes of %r: %s' % (w, hits))
+    w.attrs[hits[0]] = table
+
+
+def pe_construct(it, st):
+    cls = cls_of(PE, 'PermutingExperimenter')
+    w = M.construct(it, cls, [st.base, X.Abs('parameters_to_permute')], {'seed': None})
+    # the permutation dict (Dict[str, Dict[value, value]]) is abstracted by (perm_has, perm_dom, perm_apply): fully general
+    replace_table(w, X.PermTable(1))
+    return w
+
+
+def pe_T(s, v):
+    t = z3.IntVal(1)
+    return z3.If(X.perm_has(t, s), X.perm_apply(t, s, v), v)
+
+
+def pe_inv_outer(it, fr, ctx):
+    run = it.run
+    xs = loop_batch(ctx)
+    cur, ent = G(run), entry_heap(ctx)
+    return batch_loop_frame(run, ctx, xs, cur, ent,
+                            lambda r: z3.And(image_of(X.PDI, ent['params'][r], cur['params'][r], pe_T), others_same(cur, ent, r)))
+
+
+E.LOOPS[(PE, 'PermutingExperimenter._permute', 1)] = E.LoopSpec(pe_inv_outer, ghost=X.ALL)
+E.LOOPS[(PE, 'PermutingExperimenter._permute', 2)] = E.LoopSpec(lambda it, fr, ctx: dict_build_invariant(it, fr, ctx, X.PDI, pe_T), ghost=X.ALL)
+E.LOOPS[(PE, 'PermutingExperimenter.evaluate', 1)] = E.LoopSpec(restore_invariant, ghost=X.ALL)
+
+
+# ---- Discretizing
+def di_construct(it, st):
+    cls = cls_of(DI, 'DiscretizingExperimenter')
+    it.run.allow_oov = z3.Bool('allow_oov')
+    return M.construct(it, cls, [st.base, X.DiscTable(2)], {'allow_oov': it.run.allow_oov})
+
+
+def di_T(s, v):
+    return z3.If(X.disc_has(z3.IntVal(2), s), X.pv_as_float(v), v)
+
+
+E.LOOPS[(DI, 'DiscretizingExperimenter.evaluate', 1)] = E.LoopSpec(
+    save_transform_invariant(lambda it, fr: (lambda p0, p1: image_of(X.PDI, p0, p1, di_T))), ghost=X.ALL)
+E.LOOPS[(DI, 'DiscretizingExperimenter.evaluate', 2)] = E.LoopSpec(lambda it, fr, ctx: dict_build_invariant(it, fr, ctx, X.PDI, di_T), ghost=X.ALL)
+E.LOOPS[(DI, 'DiscretizingExperimenter.evaluate', 3)] = E.LoopSpec(restore_invariant, ghost=X.ALL)
+
+
+# ---- Sparse
+def sp_construct(it, st):
+    cls = cls_of(SP, 'SparseExperimenter')
+    it.run.prefix = z3.Const('sparse_prefix', Str)
+    return M.construct(it, cls, [st.base, X.Abs('sparse_search_space')], {'prefix': it.run.prefix})
+
+
+def sp_prefix(w):
+    ts = {v.get_id(): v for v in w.attrs.values() if z3.is_expr(v) and v.sort() == Str}
+    if len(ts) != 1:
+        raise Unsupported('cannot identify the sparse prefix among the attributes')
+    return list(ts.values())[0]
+
+
+def sp_transform(it, fr):
+    pre = sp_prefix(self_of(fr))
+    return lambda p0, p1: image_of(X.PDI, p0, p1, lambda s, v: v, guard=lambda s: z3.Not(X.str_startswith(s, pre)))
+
+
+E.LOOPS[(SP, 'SparseExperimenter.evaluate', 1)] = E.LoopSpec(save_transform_invariant(sp_transform), ghost=X.ALL)
+E.LOOPS[(SP, 'SparseExperimenter.evaluate', 2)] = E.LoopSpec(restore_invariant, ghost=X.ALL)
+
+
+# ---- scenarios / native predicates of the transformer family
+def close(a, b):
+    return isinstance(a, (int, float)) and isinstance(b, (int, float)) and abs(float(a) - float(b)) < 1e-9
+
+
+def tf_scenario(kind):
+    def scenario(p, model):
+        run = p.run
+        sc = scenario_from_model(run, model, [])
+        names = [q['name'] for q in sc['base']['params']]
+        vals = sorted({v for t in sc['batch'] for v in t['params'].values()})
+        if kind == 'Shifting':
+            sc['wrappers'] = [{'module': 'shifting_experimenter', 'class': 'ShiftingExperimenter',
+                               'kwargs': {'shift': [0.05] * len(names), 'should_restrict': z3.is_true(model.eval(z3.Bool('should_restrict'), model_completion=True))}}]
+        elif kind == 'Permuting':
+            feas = sorted(set(vals) | {0.9, 0.95})
+            sc['base']['params'] = [{'name': n, 'type': 'DISCRETE', 'feasible': feas} for n in names]
+            sc['wrappers'] = [{'module': 'permuting_experimenter', 'class': 'PermutingExperimenter',
+                               'kwargs': {'parameters_to_permute': names[:1], 'seed': 3}}]
+        elif kind == 'Discretizing':
+            feas = sorted(set(vals) | {0.9})
+            sc['wrappers'] = [{'module': 'discretizing_experimenter', 'class': 'DiscretizingExperimenter',
+                               'kwargs': {'discretization': {names[0]: feas} if names else {},
+                                          'allow_oov': z3.is_true(model.eval(z3.Bool('allow_oov'), model_completion=True))}}]
+        elif kind == 'Sparse':
+            st = run.setup
+            pn = [k for k, _ in (st.xs.desc[0]['params'] if st.xs.desc else [])]
+            sparse = [z3.is_true(model.eval(X.str_startswith(k, run.prefix), model_completion=True)) for k in pn]
+            ren = {old: ('_SP_q%d' % i if sp else 'p%d' % i) for i, (old, sp) in enumerate(zip(names, sparse))}
+            sc['base']['params'] = [{'name': ren[n]} for n, sp in zip(names, sparse) if not sp] or [{'name': 'p_only'}]
+            extra = {} if any(not sp for sp in sparse) else {'p_only': 0.5}
+            for t in sc['batch']:
+                t['params'] = dict({ren[k]: v for k, v in t['params'].items()}, **extra)
+            sc['wrappers'] = [{'module': 'sparse_experimenter', 'class': 'SparseExperimenter',
+                               'kwargs': {'prefix': '_SP', 'sparse_params': [{'name': ren[n][4:]} for n, sp in zip(names, sparse) if sp]}}]
+        return sc
+    return scenario
+
+
+def n_mapped(kind):
+    def fn(sc, obs):
+        if obs.get('exception') is not None or not obs.get('base_calls'):
+            return False
+        kw = sc['wrappers'][0]['kwargs']
+        for seen, b in zip(obs['base_calls'][0], obs['before']):
+            want = dict(b['params'])
+            if kind == 'Shifting':
+                want = {n: v - s for (n, v), s in zip(want.items(), kw['shift'])}
+            elif kind == 'Permuting':
+                tabs = list(obs.get('tables', {}).values())
+                if len(tabs) != 1:
+                    return False
+                for pn, row in tabs[0].items():
+                    m = {a: c for a, c in row}
+                    if pn in want:
+                        if want[pn] not in m:
+                            return False
+                        want[pn] = m[want[pn]]
+            elif kind == 'Discretizing':
+                want = {n: (float(v) if n in kw['discretization'] else v) for n, v in want.items()}
+            elif kind == 'Sparse':
+                want = {n: v for n, v in want.items() if not n.startswith(kw['prefix'])}
+            if set(seen) != set(want) or not all(close(seen[n], want[n]) or seen[n] == want[n] for n in want):
+                return False
+        return True
+    return fn
+
+
+def n_measurement_untouched(sc, obs):
+    if obs.get('exception') is not None:
+        return False
+    for e, t in zip(_scripted(sc), obs['after']):
+        if t['has_fm'] != e['has_fm'] or t['infeasible'] != e['infeasible']:
+            return False
+        if e['has_fm']:
+            if set(t['metrics']) != set(e['metrics']):
+                return False
+            for n, m in e['metrics'].items():
+                if not (same_float(t['metrics'][n]['value'], m['value']) and same_float(t['metrics'][n]['std'], m.get('std'))):
+                    return False
+    return True
+
+
+def tf_native(short):
+    R = 'C20.%s.evaluate.' % short
+    return {R + 'parameters_restored': n_params_unchanged, R + 'evaluates_base_at_mapped_point': n_mapped(short),
+            R + 'measurement_untouched': n_measurement_untouched, R + 'completes': n_completes(),
+            R + 'delegates_once': lambda sc, obs: len(obs.get('base_calls') or []) == 1}
+
+
+def units_transformers():
+    sh_mapped = lambda run, p0, p1: p1 == sh_map(run.conv, run.shift, p0)
+    pe_mapped = lambda run, p0, p1: image_q(run, X.PDI, p0, p1, pe_T)
+    di_mapped = lambda run, p0, p1: image_q(run, X.PDI, p0, p1, di_T)
+    sp_mapped = lambda run, p0, p1: image_q(run, X.PDI, p0, p1, lambda s, v: v, guard=lambda s: z3.Not(X.str_startswith(s, run.prefix)))
+    out = []
+    for label, short, mod, cname, construct, mapped, fns in (
+            ('ShiftingExperimenter.evaluate', 'Shifting', SH, 'ShiftingExperimenter', sh_construct, sh_mapped, ['__init__', 'evaluate', '_offset']),
+            ('PermutingExperimenter.evaluate', 'Permuting', PE, 'PermutingExperimenter', pe_construct, pe_mapped, ['__init__', 'evaluate', '_permute']),
+            ('DiscretizingExperimenter.evaluate', 'Discretizing', DI, 'DiscretizingExperimenter', di_construct, di_mapped, ['__init__', 'evaluate']),
+            ('SparseExperimenter.evaluate', 'Sparse', SP, 'SparseExperimenter', sp_construct, sp_mapped, ['__init__', 'evaluate'])):
+        R = 'C20.%s.evaluate.' % short
+        out.append(Unit(label, short, [(mod, cname + '.' + f) for f in fns], wr_entry(construct), wr_post(R, mapped),
+                        bentry=wr_entry(construct, BOUNDED), scenario=tf_scenario(short), native=tf_native(short)))
+    return out
+
+
+# =========================================================================================== constructors of the other experimenters
+impl_fn = z3.Function('numpy_impl', X.Feat, xreal.XReal)
+noise_uf = z3.Function('noise_fn', xreal.XReal, xreal.XReal)
+
+
+def _impl(it, args, kw):
+    a = args[0]
+    return impl_fn(a.term if isinstance(a, X.FeatV) else it.run.fresh('absfeat', X.Feat))
+
+
+def _noise(it, args, kw):
+    v = args[0]
+    return noise_uf(xreal.lift(v)) if not isinstance(v, X.Abs) else it.run.fresh('noise', xreal.XReal)
+
+
+def no_construct(it, st):
+    return M.construct(it, cls_of(NO, 'NoisyExperimenter'), [st.base, X.FnV(_noise)], {})
+
+
+def nz_construct(it, st):
+    return M.construct(it, cls_of(NZ, 'NormalizingExperimenter'), [st.base], {})
+
+
+def hc_construct(it, st):
+    return M.construct(it, cls_of(NZ, 'HyperCubeExperimenter'), [st.base], {})
+
+
+def np_construct(it, st):
+    run = it.run
+    run.caller_ps = X.base_problem_statement(it, st.base)       # the caller's own problem statement (same metrics as `base`)
+    return M.construct(it, cls_of(NP, 'NumpyExperimenter'), [X.FnV(_impl), run.caller_ps], {})
+
+
+def hi_construct(it, st):
+    return M.construct(it, cls_of(IN, 'HashingInfeasibleExperimenter'), [st.base],
+                       {'infeasible_prob': z3.Const('infeasible_prob', xreal.XReal), 'seed': z3.Int('hash_seed')})
+
+
+def pr_construct(it, st):
+    return M.construct(it, cls_of(IN, 'ParamRegionInfeasibleExperimenter'), [st.base, z3.Const('region_param', Str)],
+                       {'infeasible_interval': (z3.Const('region_lo', xreal.XReal), z3.Const('region_hi', xreal.XReal))})
+
+
+def sw_construct(it, st):
+    return M.construct(it, cls_of(SW, 'SwitchExperimenter'), [list(st.bases)], {})
+
+
+def mo_construct(it, st):
+    d = M.PyDict()
+    for k, b in enumerate(st.bases):
+        d.set(it, z3.Const('objective_name_%d' % k, Str), b)
+    it.run.mo_names = [k for k, _ in d.items()]
+    return M.construct(it, cls_of(MO, 'MultiObjectiveExperimenter'), [d], {})
+
+
+# =========================================================================================== NumpyExperimenter.evaluate
+def np_parts(w):
+    conv = find_attr(w, lambda v: isinstance(v, X.ConverterV), 'the converter')
+    # the configured metric name: the attribute that holds a name read from the problem statement's MetricInformation
+    mname = find_attr(w, lambda v: z3.is_expr(v) and v.sort() == Str and z3.is_select(v), 'the configured metric name')
+    return conv, mname
+
+
+def np_val(conv, p0):
+    return impl_fn(X.featrow(conv.term, p0))
+
+
+def np_done(conv, mname, cur, ent, r):
+    v = np_val(conv, ent['params'][r])
+    one = X.concrete_dict(X.MDI, [(mname, X.MetricS.mk(v, z3.BoolVal(False), xreal.lit(0.0)))])
+    return z3.And(cur['params'][r] == ent['params'][r], cur['fmset'][r], cur['rest'][r] == X.MRest0,
+                  z3.If(xreal.is_fin(v), z3.And(cur['metrics'][r] == one, cur['infeas'][r] == ent['infeas'][r]),
+                        z3.And(cur['metrics'][r] == X.MDI.empty(), cur['infeas'][r])))
+
+
+def np_inv(it, fr, ctx):
+    run = it.run
+    xs = loop_batch(ctx)
+    conv, mname = np_parts(self_of(fr))
+    cur, ent = G(run), entry_heap(ctx)
+    return batch_loop_frame(run, ctx, xs, cur, ent, lambda r: np_done(conv, mname, cur, ent, r))
+
+
+E.LOOPS[(NP, 'NumpyExperimenter.evaluate', 1)] = E.LoopSpec(np_inv, ghost=X.ALL)
+
+
+def np_entry(bounded=None):
+    def entry(it):
+        st = Setup(it, bounded=bounded)
+        run = it.run
+        run.w = np_construct(it, st)
+        run.constructed = True
+        st.H0 = G(run)
+        return call_method(it, run.w, 'evaluate', [st.xs])
+    return entry
+
+
+def np_post(p):
+    R = 'C20.Numpy.evaluate.'
+    run = p.run
+    if p.kind != 'return':
+        return []
+    st = run.setup
+    conv, mname = np_parts(run.w)
+    F, H0, xs = G(run), st.H0, st.xs
+    dom, val = X.MDI.dom, X.MDI.val
+    v = lambda r: np_val(conv, H0['params'][r])
+    out = [
+        (R + 'configured_metric_is_an_objective_of_the_problem', X.named(st.base, mname)),
+        (R + 'completes_with_configured_metric', QJ(xs, lambda j, r: z3.Or(F['infeas'][r], z3.And(F['fmset'][r], dom(F['metrics'][r])[mname])))),
+        (R + 'value_is_impl_at_features', QJ(xs, lambda j, r: z3.Implies(xreal.is_fin(v(r)), z3.And(
+            dom(F['metrics'][r])[mname], X.MetricS.value(val(F['metrics'][r])[mname]) == v(r))))),
+        (R + 'infeasible_iff_not_finite', QJ(xs, lambda j, r: z3.If(xreal.is_fin(v(r)), F['infeas'][r] == H0['infeas'][r], F['infeas'][r]))),
+        (R + 'only_configured_metric', QJ(xs, lambda j, r: QS(run, lambda s: z3.Implies(dom(F['metrics'][r])[s], s == mname)))),
+        (R + 'never_calls_wrapped', z3.BoolVal(len(base_calls(run)) == 0)),
+    ]
+    return out + post_common(R, p, wrapper_names=lambda s: s == mname)
+
+
+def np_scenario(p, model):
+    run = p.run
+    sc = scenario_from_model(run, model, [])
+    conv, mname = np_parts(run.w)
+    st = run.setup
+    vals = [enc_float(xreal.model_value(model, np_val(conv, st.H0['params'][t.term]))) for t in st.xs.conc]
+    sc['base']['metrics'] = sc['base']['metrics'][:1]
+    sc['numpy'] = {'impl_values': vals}
+    return sc
+
+
+def n_np(which):
+    def fn(sc, obs):
+        if obs.get('exception') is not None:
+            return False
+        name = sc['base']['metrics'][0]['name']
+        import math
+        for v, t in zip(sc['numpy']['impl_values'], obs['after']):
+            v = dec_float(v)
+            fin = math.isfinite(v)
+            if which == 'metric' and not (t['infeasible'] or (t['has_fm'] and name in t['metrics'])):
+                return False
+            if which == 'value' and fin and not (t['has_fm'] and name in t['metrics'] and same_float(t['metrics'][name]['value'], v)):
+                return False
+            if which == 'infeasible' and (t['infeasible'] != (not fin)):
+                return False
+            if which == 'only' and t['has_fm'] and any(k != name for k in t['metrics']):
+                return False
+        return True
+    return fn
+
+
+def units_numpy():
+    R = 'C20.Numpy.evaluate.'
+    native = {R + 'completes_with_configured_metric': n_np('metric'), R + 'value_is_impl_at_features': n_np('value'),
+              R + 'infeasible_iff_not_finite': n_np('infeasible'), R + 'only_configured_metric': n_np('only'),
+              R + 'completes': n_np('metric'), R + 'parameters_unchanged': n_params_unchanged}
+    return [Unit('NumpyExperimenter.evaluate', 'Numpy', [(NP, 'NumpyExperimenter.__init__'), (NP, 'NumpyExperimenter.evaluate')],
+                 np_entry(), np_post, bentry=np_entry(BOUNDED), scenario=np_scenario, native=native)]
+
+
+# =========================================================================================== infeasibility wrappers / HyperCube
+def completed_q(run, heap, b, r, names=None):
+    nm = names if names is not None else (lambda s: X.named(b, s))
+    return z3.Or(heap['infeas'][r], z3.And(heap['fmset'][r], QS(run, lambda s: z3.Implies(nm(s), X.MDI.dom(heap['metrics'][r])[s]))))
+
+
+def inf_inv(it, fr, ctx):
+    """every processed trial is marked infeasible by the wrapper, or was handed (alone, parameters untouched) to the wrapped experimenter"""
+    run = it.run
+    try:
+        xs = loop_batch(ctx)
+    except Unsupported:
+        # a loop over per-trial features (enumerate(converter.convert(batch))): as many rows as trials, in batch order
+        _, xs = find_local(fr, is_batch, 'the batch')
+        n_it = ctx.iter.n
+        if not (z3.is_expr(n_it) and z3.is_expr(xs.n) and n_it.eq(xs.n)):
+            raise Unsupported('loop over something that is not aligned with the batch')
+    base = run.setup.base
+    cur, ent = G(run), entry_heap(ctx)
+    return batch_loop_frame(run, ctx, xs, cur, ent, lambda r: z3.And(cur['params'][r] == ent['params'][r], X.completed_formula(cur, base, r)))
+
+
+E.LOOPS[(IN, 'HashingInfeasibleExperimenter.evaluate', 1)] = E.LoopSpec(inf_inv, ghost=X.ALL)
+E.LOOPS[(IN, 'ParamRegionInfeasibleExperimenter.evaluate', 1)] = E.LoopSpec(inf_inv, ghost=X.ALL)
+
+
+def inf_entry(construct, R, bounded=None):
+    def entry(it):
+        st = Setup(it, bounded=bounded)
+        run = it.run
+        run.w = construct(it, st)
+        run.constructed = True
+        st.H0 = G(run)
+
+        def hook(it_, call):
+            # every delegation hands over trials of the batch with their suggested parameters
+            xs2 = call['xs']
+            conc = getattr(xs2, 'conc', None)
+            ok = conc is not None
+            f = z3.And(*[z3.And(X.member_of(st.xs, t.term), call['pre']['params'][t.term] == st.H0['params'][t.term]) for t in (conc or [])]) \
+                if ok and conc else z3.BoolVal(ok)
+            it_.run.oblige(R + 'base_sees_suggested_parameters', f)
+        run.on_base_evaluate = hook
+        return call_method(it, run.w, 'evaluate', [st.xs])
+    return entry
+
+
+def inf_post(R):
+    def post(p):
+        if p.kind != 'return':
+            return []
+        return post_common(R, p)
+    return post
+
+
+def hc_convs(w):
+    cs = [v for v in w.attrs.values() if isinstance(v, X.ConverterV)]
+    ev = [c for c in cs if c.kw.get('scale') is False]
+    sc = [c for c in cs if c.kw.get('scale') is True]
+    if len(ev) != 1 or len(sc) != 1:
+        raise Unsupported('cannot identify the two converters of HyperCubeExperimenter')
+    return sc[0], ev[0]
+
+
+def hc_inv_assign(it, fr, ctx):
+    run = it.run
+    z = ctx.iter
+    copies = [p for p in z.parts if is_batch(p)]
+    pds = [p for p in z.parts if isinstance(p, X.VList) and p.kind is X.K_PD]
+    if len(copies) != 1 or len(pds) != 1:
+        raise Unsupported('HyperCube assignment loop shape')
+    cs, pd = copies[0], pds[0]
+    cur, ent = G(run), entry_heap(ctx)
+    return batch_loop_frame(run, ctx, cs, cur, ent, lambda r: z3.And(cur['params'][r] == pd.arr[cs.pos[r]], others_same(cur, ent, r)))
+
+
+def hc_inv_copyback(it, fr, ctx):
+    run = it.run
+    z = ctx.iter
+    bs = [p for p in z.parts if is_batch(p)]
+    if len(bs) != 2:
+        raise Unsupported('HyperCube copy-back loop shape')
+    xs, cs = bs
+    cur, ent = G(run), entry_heap(ctx)
+
+    def done(r):
+        c = cs.arr[xs.pos[r]]
+        return z3.And(cur['params'][r] == ent['params'][r], cur['infeas'][r] == ent['infeas'][r], cur['fmset'][r] == ent['fmset'][c],
+                      z3.Implies(ent['fmset'][c], z3.And(cur['metrics'][r] == ent['metrics'][c], cur['rest'][r] == ent['rest'][c])))
+    return batch_loop_frame(run, ctx, xs, cur, ent, done)
+
+
+E.LOOPS[(NZ, 'HyperCubeExperimenter.evaluate', 1)] = E.LoopSpec(hc_inv_assign, ghost=X.ALL)
+E.LOOPS[(NZ, 'HyperCubeExperimenter.evaluate', 2)] = E.LoopSpec(hc_inv_copyback, ghost=X.ALL)
+
+
+def hc_entry(bounded=None, never_infeasible=False):
+    def entry(it):
+        st = Setup(it, bounded=bounded)
+        run = it.run
+        run.w = hc_construct(it, st)
+        run.constructed = True
+        run.base_never_infeasible = never_infeasible
+        st.H0 = G(run)
+        return call_method(it, run.w, 'evaluate', [st.xs])
+    return entry
+
+
+def hc_post(p):
+    R = 'C20.HyperCube.evaluate.'
+    run = p.run
+    if p.kind != 'return':
+        return []
+    st = run.setup
+    calls = [c for c in base_calls(run) if not c['raised']]
+    ok = len(calls) == 1
+    out = [(R + 'delegates_once', z3.BoolVal(ok))]
+    if not ok:
+        return out
+    c = calls[0]
+    cs, B, F, xs, H0 = c['xs'], c['post'], G(run), st.xs, st.H0
+    conv, evconv = hc_convs(run.w)
+    same_n = (cs.n == xs.n) if z3.is_expr(cs.n) or z3.is_expr(xs.n) else z3.BoolVal(cs.n == xs.n)
+    cj = lambda j: cs.arr[j] if getattr(cs, 'conc', None) is None else cs.conc[j.as_long()].term
+    out += [
+        (R + 'evaluates_base_at_mapped_point', z3.And(same_n, QJ(xs, lambda j, r: c['pre']['params'][cj(j)] == X.toparrow(
+            conv.term, X.featrow(evconv.term, H0['params'][r]))))),
+        (R + 'evaluates_copies', QJ(xs, lambda j, r: z3.Not(H0['talloc'][cj(j)]))),
+        (R + 'measurement_copied', QJ(xs, lambda j, r: z3.And(F['fmset'][r] == B['fmset'][cj(j)], z3.Implies(B['fmset'][cj(j)], z3.And(
+            F['metrics'][r] == B['metrics'][cj(j)], F['rest'][r] == B['rest'][cj(j)]))))),
+        (R + 'infeasibility_propagated', QJ(xs, lambda j, r: F['infeas'][r] == z3.Or(H0['infeas'][r], B['infeas'][cj(j)]))),
+    ]
+    return out + post_common(R, p)
+
+
+def hc_scenario(p, model):
+    sc = scenario_from_model(p.run, model, [{'module': 'normalizing_experimenter', 'class': 'HyperCubeExperimenter', 'kwargs': {}}])
+    for i, t in enumerate(sc['batch']):
+        t['params'] = {'h%d' % k: v for k, v in enumerate(t['params'].values())}
+    return sc
+
+
+def n_infeasibility(sc, obs):
+    return obs.get('exception') is None and all(t['infeasible'] == e['infeasible'] for e, t in zip(_scripted(sc), obs['after']))
+
+
+def units_infeasible_hypercube():
+    out = []
+    for short, cname, construct in (('HashingInfeasible', 'HashingInfeasibleExperimenter', hi_construct),
+                                    ('ParamRegionInfeasible', 'ParamRegionInfeasibleExperimenter', pr_construct)):
+        R = 'C20.%s.evaluate.' % short
+        out.append(Unit(cname + '.evaluate', short, [(IN, cname + '.evaluate'), (IN, cname + '.__attrs_post_init__')],
+                        inf_entry(construct, R), inf_post(R), bentry=None,
+                        native={R + 'parameters_unchanged': n_params_unchanged, R + 'completes': n_completes()}))
+    R = 'C20.HyperCube.evaluate.'
+    rknown = {}
+    for k in ('infeasibility_propagated', 'completes'):
+        f = CHK.finding_for(R + k) if CHK is not None else None
+        if f is not None:
+            rknown[R + k] = f['what']
+    out.append(Unit('HyperCubeExperimenter.evaluate', 'HyperCube', [(NZ, 'HyperCubeExperimenter.__init__'), (NZ, 'HyperCubeExperimenter.evaluate')],
+                    hc_entry(), hc_post, bentry=hc_entry(BOUNDED), scenario=hc_scenario,
+                    native={R + 'infeasibility_propagated': n_infeasibility, R + 'completes': n_completes(),
+                            R + 'parameters_unchanged': n_params_unchanged, R + 'measurement_copied': n_measurement_untouched},
+                    rentry=hc_entry(never_infeasible=True), rknown=rknown))
+    return out
+
+
+# =========================================================================================== NormalizingExperimenter
+def nz_table_roles():
+    """{attribute name: 'mean' | 'std'} and the list of RHS expressions stored into the std table, read from the class body:
+    an attribute X is the std (mean) table iff some statement `self.X[...] = rhs` has a call to numpy's std (mean) in rhs."""
+    cls = cls_of(NZ, 'NormalizingExperimenter')
+    roles, std_rhs = {}, []
+    for mname, fn in cls.methods.items():
+        me = fn.args.args[0].arg if fn.args.args else 'self'
+        for n in ast.walk(fn):
+            if isinstance(n, (ast.Assign, ast.AnnAssign, ast.AugAssign)):
+                tgts = n.targets if isinstance(n, ast.Assign) else [n.target]
+                for t in tgts:
+                    if isinstance(t, ast.Subscript) and isinstance(t.value, ast.Attribute) and isinstance(t.value.value, ast.Name) and t.value.value.id == me \
+                            and n.value is not None:
+                        calls = {ast.unparse(c.func).split('.')[-1] for c in ast.walk(n.value) if isinstance(c, ast.Call)}
+                        role = 'std' if 'std' in calls else ('mean' if 'mean' in calls else None)
+                        if role is None or roles.get(t.value.attr, role) != role or isinstance(n, ast.AugAssign):
+                            raise Unsupported('store into self.%s[...] in %s is not a plain np.std / np.mean expression' % (t.value.attr, mname))
+                        roles[t.value.attr] = role
+                        if role == 'std':
+                            std_rhs.append((mname, n.value))
+    if sorted(roles.values()) != ['mean', 'std']:
+        raise Unsupported('cannot identify the mean / std tables of NormalizingExperimenter: %s' % roles)
+    return roles, std_rhs
+
+
+NZ_MEAN, NZ_STD = 11, 12
+
+
+def nz_construct_tables(it, st):
+    w = nz_construct(it, st)
+    roles, _ = nz_table_roles()
+    for a, role in roles.items():
+        if a not in w.attrs:
+            raise Unsupported('NormalizingExperimenter.__init__ did not set self.%s' % a)
+        # Dict[str, float] abstracted by (norm_has, norm_value): fully general; the class invariant below restricts the std table
+        w.attrs[a] = X.NormTable(NZ_STD if role == 'std' else NZ_MEAN, role)
+    return w
+
+
+def nz_mean(s):
+    return X.norm_val(z3.IntVal(NZ_MEAN), s)
+
+
+def nz_std(s):
+    return X.norm_val(z3.IntVal(NZ_STD), s)
+
+
+def nz_class_invariant(s):
+    """established by C20.Normalizing.__init__.std_positive for every store into the std table; np.mean of finite values is finite"""
+    return z3.And(xreal.is_fin(nz_std(s)), xreal.r(nz_std(s)) > 0, xreal.is_fin(nz_mean(s)))
+
+
+def nz_T(s, v):
+    return X.MetricS.mk(X.xdiv(xreal.sub(X.MetricS.value(v), nz_mean(s)), nz_std(s)), z3.BoolVal(False), xreal.lit(0.0))
+
+
+def nz_inv_outer(it, fr, ctx):
+    run = it.run
+    xs = loop_batch(ctx)
+    cur, ent = G(run), entry_heap(ctx)
+
+    def done(r):
+        return z3.And(cur['params'][r] == ent['params'][r], cur['fmset'][r] == ent['fmset'][r], cur['rest'][r] == ent['rest'][r],
+                      cur['infeas'][r] == ent['infeas'][r],
+                      z3.If(ent['fmset'][r], image_of(X.MDI, ent['metrics'][r], cur['metrics'][r], nz_T), cur['metrics'][r] == ent['metrics'][r]))
+    return batch_loop_frame(run, ctx, xs, cur, ent, done)
+
+
+E.LOOPS[(NZ, 'NormalizingExperimenter.evaluate', 1)] = E.LoopSpec(nz_inv_outer, ghost=X.ALL)
+E.LOOPS[(NZ, 'NormalizingExperimenter.evaluate', 2)] = E.LoopSpec(lambda it, fr, ctx: dict_build_invariant(it, fr, ctx, X.MDI, nz_T), ghost=X.ALL)
+
+
+def nz_entry(bounded=None):
+    def entry(it):
+        st = Setup(it, bounded=bounded)
+        run = it.run
+        run.w = nz_construct_tables(it, st)
+        run.constructed = True
+        # the constructor evaluates sample trials: the batch under test is created afterwards
+        st.xs = X.make_batch(run, 'ys') if bounded is None else X.bounded_batch(run, bounded.get('batch', 2), bounded.get('params', 2), name='y')
+        st.H0 = G(run)
+        if bounded is None:
+            s = z3.Const('s!nzci', Str)
+            run.axiom(z3.ForAll([s], nz_class_invariant(s)))
+        else:
+            for s in run.strings:
+                run.assume(nz_class_invariant(s))
+        run.base_calls = []
+        return call_method(it, run.w, 'evaluate', [st.xs])
+    return entry
+
+
+def nz_post(p):
+    R = 'C20.Normalizing.evaluate.'
+    run = p.run
+    if p.kind != 'return':
+        return []
+    st = run.setup
+    calls = [c for c in base_calls(run) if not c['raised']]
+    ok = len(calls) == 1 and same_batch(calls[0], st)
+    out = [(R + 'delegates_once', z3.BoolVal(ok))]
+    if not ok:
+        return out
+    B, F, xs = calls[0]['post'], G(run), st.xs
+    dom, val, value = X.MDI.dom, X.MDI.val, X.MetricS.value
+    had = lambda r, s: z3.And(B['fmset'][r], dom(B['metrics'][r])[s])
+    bv = lambda r, s: value(val(B['metrics'][r])[s])
+    fv = lambda r, s: value(val(F['metrics'][r])[s])
+    fin2 = lambda r1, r2, s: z3.And(had(r1, s), had(r2, s), xreal.is_fin(bv(r1, s)), xreal.is_fin(bv(r2, s)))
+    out += [
+        (R + 'formula', QJ(xs, lambda j, r: QS(run, lambda s: z3.Implies(had(r, s), z3.And(dom(F['metrics'][r])[s], fv(r, s) == X.xdiv(
+            xreal.sub(bv(r, s), nz_mean(s)), nz_std(s))))))),
+        order_clause(run, xs, fin2, bv, fv, R),
+        (R + 'no_metric_added_or_lost', QJ(xs, lambda j, r: QS(run, lambda s: z3.Implies(B['fmset'][r], dom(F['metrics'][r])[s] == dom(B['metrics'][r])[s])))),
+        (R + 'status_untouched', QJ(xs, lambda j, r: z3.And(F['fmset'][r] == B['fmset'][r], F['infeas'][r] == B['infeas'][r], F['rest'][r] == B['rest'][r]))),
+        (R + 'base_sees_suggested_parameters', QJ(xs, lambda j, r: calls[0]['pre']['params'][r] == st.H0['params'][r])),
+    ]
+    return out + post_common(R, p)
+
+
+def nz_monotone(a, b, m, sd):
+    """x -> (x - m) / sd is strictly increasing on finite values when sd is a finite positive number (mathematical arithmetic)"""
+    N = lambda x: X.xdiv(xreal.sub(x, m), sd)
+    return z3.Implies(z3.And(xreal.is_fin(a), xreal.is_fin(b), xreal.is_fin(m), xreal.is_fin(sd), xreal.r(sd) > 0),
+                      z3.And(z3.Implies(xreal.lt(a, b), xreal.lt(N(a), N(b))), z3.Implies(a == b, N(a) == N(b))))
+
+
+def order_clause(run, xs, fin2, bv, fv, R):
+    body = lambda r1, r2, s: z3.Implies(fin2(r1, r2, s), z3.And(z3.Implies(xreal.lt(bv(r1, s), bv(r2, s)), xreal.lt(fv(r1, s), fv(r2, s))),
+                                                               z3.Implies(bv(r1, s) == bv(r2, s), fv(r1, s) == fv(r2, s))))
+    if getattr(xs, 'conc', None) is not None:
+        return (R + 'order_preserved', QJ(xs, lambda j1, r1: QJ(xs, lambda j2, r2: QS(run, lambda s: body(r1, r2, s)))))
+    # proof script (DESIGN 2.3): `pointwise j1 j2 s` (fresh constants = forall-introduction) and
+    # `use lemma C20.Normalizing.lemma.monotone at (base value 1, base value 2, mean(s), std(s))`; the lemma is its own obligation
+    j1, j2, s = z3.Int('j1!op'), z3.Int('j2!op'), z3.Const('s!op', Str)
+    r1, r2 = xs.arr[j1], xs.arr[j2]
+    inst = nz_monotone(bv(r1, s), bv(r2, s), nz_mean(s), nz_std(s))
+    return (R + 'order_preserved', z3.Implies(z3.And(j1 >= 0, j1 < xs.n, j2 >= 0, j2 < xs.n, inst), body(r1, r2, s)))
+
+
+def nz_lemma_entry(it):
+    X.init_heap(it.run)
+    return None
+
+
+def nz_lemma_post(p):
+    a, b, m, sd = [z3.Const(n, xreal.XReal) for n in ('a!lm', 'b!lm', 'm!lm', 'sd!lm')]
+    return [('C20.Normalizing.lemma.monotone', z3.ForAll([a, b, m, sd], nz_monotone(a, b, m, sd)))]
+
+
+def nz_std_entry(k):
+    def entry(it):
+        run = it.run
+        X.init_heap(run)
+        roles, std_rhs = nz_table_roles()
+        mname, rhs = std_rhs[k]
+        cls = cls_of(NZ, 'NormalizingExperimenter')
+        env = {}
+        for n in ast.walk(rhs):
+            if isinstance(n, ast.Name) and n.id not in cls.mod.imports and n.id not in cls.mod.funcs and n.id not in cls.mod.classes \
+                    and n.id not in cls.mod.assigns and n.id not in M.BUILTINS:
+                env[n.id] = X.Abs(n.id)
+        run.value = it.eval(E.Frame(cls.mod, env), rhs)
+        return run.value
+    return entry
+
+
+def nz_std_post(p):
+    R = 'C20.Normalizing.__init__.'
+    run = p.run
+    if p.kind != 'return':
+        return [(R + 'std_positive', z3.BoolVal(False))]
+    v = run.value
+    stds = getattr(run, 'np_std_results', [])
+    if not (xreal.is_x(v) and len(stds) == 1):
+        return [(R + 'std_positive', z3.BoolVal(False))]
+    # numpy contract (assumed): np.std of finite values is a finite number >= 0 (machine arithmetic treated as mathematical)
+    return [(R + 'std_positive', z3.Implies(xreal.is_fin(stds[0]), z3.And(xreal.is_fin(v), xreal.r(v) > 0)))]
+
+
+def nz_scenario(p, model):
+    """tiny-spread witness: the wrapped experimenter answers the constructor's samples with one constant (empirical std 0);
+    the evaluated batch gets two different finite values above that constant"""
+    sc = scenario_from_model(p.run, model, [{'module': 'normalizing_experimenter', 'class': 'NormalizingExperimenter',
+                                            'kwargs': {'num_normalization_samples': 4}}])
+    sc['base']['default_value'] = 1.5
+    names = [m['name'] for m in sc['base']['metrics']]
+    sc['batch'] = (sc['batch'] + sc['batch'])[:2] if sc['batch'] else []
+    sc['script'] = [[{'metrics': {n: {'value': 2.0 + i} for n in names}, 'infeasible': False, 'has_fm': True} for i in range(len(sc['batch']))]]
+    return sc
+
+
+def n_order_preserved(sc, obs):
+    import math
+    if obs.get('exception') is not None:
+        return False
+    es, ts = _scripted(sc), obs['after']
+    for a in range(len(ts)):
+        for b in range(len(ts)):
+            for n in es[a]['metrics']:
+                if not (es[a]['has_fm'] and es[b]['has_fm'] and n in es[b]['metrics']):
+                    continue
+                x, y = dec_float(es[a]['metrics'][n]['value']), dec_float(es[b]['metrics'][n]['value'])
+                if not (math.isfinite(x) and math.isfinite(y)):
+                    continue
+                fx, fy = dec_float(ts[a]['metrics'][n]['value']), dec_float(ts[b]['metrics'][n]['value'])
+                if x < y and not fx < fy:
+                    return False
+                if x == y and not fx == fy:
+                    return False
+    return True
+
+
+def units_normalizing():
+    fns = [(NZ, 'NormalizingExperimenter.__init__'), (NZ, 'NormalizingExperimenter.evaluate')]
+    R = 'C20.Normalizing.evaluate.'
+    native = {R + 'order_preserved': n_order_preserved, R + 'formula': n_order_preserved, R + 'parameters_unchanged': n_params_unchanged,
+              R + 'completes': n_completes(), R + 'status_untouched': n_status, R + 'no_metric_added_or_lost': n_status}
+    out = [Unit('NormalizingExperimenter.evaluate', 'Normalizing', fns, nz_entry(), nz_post, bentry=nz_entry(BOUNDED), scenario=nz_scenario, native=native)]
+    out.append(Unit('NormalizingExperimenter.evaluate(lemma)', 'Normalizing', [], nz_lemma_entry, nz_lemma_post))
+    _, std_rhs = nz_table_roles()
+    for k in range(len(std_rhs)):
+        out.append(Unit('NormalizingExperimenter.__init__(std table store #%d)' % (k + 1), 'Normalizing', fns[:1], nz_std_entry(k), nz_std_post,
+                        bentry=nz_entry(BOUNDED), scenario=nz_scenario, native={'C20.Normalizing.__init__.std_positive': n_order_preserved}))
+    return out
+
+
+# =========================================================================================== NoisyExperimenter: seeded reproducibility
+NOISE_ENTRIES = [
+    dict(name='Noisy.from_type', kind='function', mod=NO, qual='NoisyExperimenter.from_type', seeds=('seed',), randomized=True),
+    dict(name='Noisy._create_noise_fn', kind='function', mod=NO, qual='_create_noise_fn', seeds=('seed',), randomized=True),
+    dict(name='Noisy._uniform_noise', kind='function', mod=NO, qual='_uniform_noise', seeds=('rng',), randomized=True),
+    dict(name='Noisy._cauchy_noise', kind='function', mod=NO, qual='_cauchy_noise', seeds=('rng',), randomized=True),
+    dict(name='Noisy._additive_normal_noise', kind='function', mod=NO, qual='_additive_normal_noise', seeds=('rng',), randomized=True),
+]
+
+
+def noisy_frame_obligations(chk):
+    """C14's read-frame analysis (pyvc.readframe through contracts/c14.py) on the noise machinery: with a seed given no ambient
+    nondeterminism is reachable and the seed reaches every RNG.  Frame obligations are decided on the real AST."""
+    from contracts import c14
+    old = c14.EXPAND
+    c14.EXPAND = list(old) + ['vizier._src.benchmarks.experimenters']
+    try:
+        for entry in NOISE_ENTRIES:
+            t0 = time.time()
+            chk.function(entry['mod'], entry['qual'])
+            try:
+                s, found, converged, methods, missing = c14.analyse(entry)
+                amb, seedv, assum = c14.decide(entry, s, found)
+            except Exception as e:
+                chk.error('C20.%s.readframe' % entry['name'], 'read-frame engine failed (checker error): %r' % (e,))
+                continue
+            for a in s['assumptions'] + assum:
+                chk.assume('read frame: ' + a)
+            dt = time.time() - t0
+            if not converged or not found:
+                chk.error('C20.%s.readframe' % entry['name'], 'fixpoint not reached / no seed parameter found: %s' % (found,))
+                continue
+            for clause, bad in (('no_ambient_nondeterminism', amb), ('seed_reaches_rng', seedv)):
+                name = 'C20.%s.%s' % (entry['name'], clause)
+                detail = {'closure': s['closure'][:40], 'rng_constructions': [c['call'] for c in s['rng_ctors']], 'rng_uses': len(s['rng_uses'])}
+                if not bad:
+                    chk.obligation(name, entry['qual'], 'frame', report.PROVED, dt / 2, detail=detail)
+                else:
+                    sc = {'kind': 'noisy_reproducible', 'noise_type': 'SEVERE_GAUSSIAN', 'seed': 7,
+                          'base': {'params': [{'name': 'x'}], 'metrics': [{'name': 'obj', 'goal': 'MINIMIZE'}]}, 'batch': [{'params': {'x': 0.5}}]}
+                    obs = run_replay(sc)
+                    rep = (not obs['reproducible']) if 'reproducible' in obs else None
+                    chk.obligation(name, entry['qual'], 'frame', report.VIOLATED, dt / 2, detail=dict(detail, violations=bad[:6]),
+                                   model='\n'.join(bad), replay={'scenario': sc, 'observed': obs}, reproduced=True if rep else None)
+    finally:
+        c14.EXPAND = old
+
+
+# =========================================================================================== NoisyExperimenter.evaluate
+str_strip = z3.Function('str_strip_suffix', Str, Str, Str)      # inverse of concatenation with a fixed suffix (definitional extension)
+
+
+def no_sfx():
+    return pm.str_lit('_before_noise')
+
+
+def noised(v):
+    return X.MetricS.mk(noise_uf(X.MetricS.value(v)), z3.BoolVal(False), xreal.lit(0.0))
+
+
+def no_relation(m0, m1, quant):
+    """m1 = { s: Metric(noise(m0[s].value)), s + '_before_noise': m0[s]  for s in m0 } (documented behaviour)"""
+    sfx = no_sfx()
+    dom, val = X.MDI.dom, X.MDI.val
+    orig = lambda s: dom(m0)[s]
+    kept = lambda s: z3.And(s == X.str_concat(str_strip(s, sfx), sfx), dom(m0)[str_strip(s, sfx)])
+    return quant(lambda s: z3.And(dom(m1)[s] == z3.Or(orig(s), kept(s)),
+                                  z3.Implies(orig(s), val(m1)[s] == noised(val(m0)[s])),
+                                  z3.Implies(kept(s), val(m1)[s] == val(m0)[str_strip(s, sfx)])))
+
+
+def forall_s(body):
+    s = z3.Const('s!no', Str)
+    return z3.ForAll([s], body(s))
+
+
+def no_inv_outer(it, fr, ctx):
+    run = it.run
+    xs = loop_batch(ctx)
+    cur, ent = G(run), entry_heap(ctx)
+
+    def done(r):
+        return z3.And(cur['params'][r] == ent['params'][r], cur['fmset'][r] == ent['fmset'][r], cur['rest'][r] == ent['rest'][r],
+                      cur['infeas'][r] == ent['infeas'][r],
+                      z3.If(ent['fmset'][r], no_relation(ent['metrics'][r], cur['metrics'][r], forall_s), cur['metrics'][r] == ent['metrics'][r]))
+    return batch_loop_frame(run, ctx, xs, cur, ent, done)
+
+
+def no_inv_inner(it, fr, ctx):
+    run = it.run
+    items = ctx.iter
+    if not isinstance(items, X.ItemsList):
+        raise Unsupported('noise loop over %r' % (items,))
+    m0 = items.dv
+    _, d = find_local(fr, lambda v: isinstance(v, (M.PyDict, X.SMap)), 'the dict under construction')
+    if ctx.phase == 'head':
+        X.set_clock(run, ctx.i)
+        if isinstance(d, X.SMap):
+            d.ensure(it, X.MDI)
+    dom, val, src = X.view(it, d, X.MDI)
+    keys, mval = X.MDI.keys(m0.term), X.MDI.val(m0.term)
+    s, j = z3.Const('s!ni', Str), z3.Int('j!ni')
+    i, sfx = ctx.i, no_sfx()
+    k = keys[src[s]]
+    return [('heap_untouched', fields_equal(G(run), entry_heap(ctx))),
+            ('image', z3.ForAll([s], z3.Implies(dom[s], z3.And(src[s] >= 0, src[s] < i, z3.Or(
+                z3.And(s == k, val[s] == noised(mval[s])), z3.And(s == X.str_concat(k, sfx), val[s] == mval[k])))))),
+            ('covered', z3.ForAll([j], z3.Implies(z3.And(j >= 0, j < i), z3.And(dom[keys[j]], dom[X.str_concat(keys[j], sfx)]))))]
+
+
+E.LOOPS[(NO, 'NoisyExperimenter.evaluate', 1)] = E.LoopSpec(no_inv_outer, ghost=X.ALL)
+E.LOOPS[(NO, 'NoisyExperimenter.evaluate', 2)] = E.LoopSpec(no_inv_inner, ghost=X.ALL)
+
+
+def no_entry(bounded=None):
+    def entry(it):
+        st = Setup(it, bounded=bounded)
+        run = it.run
+        sfx = no_sfx()
+        a, b = z3.Const('a!cc', Str), z3.Const('b!cc', Str)
+        if bounded is None:
+            # strings: x + suffix determines x (str_strip is its inverse); stated precondition on the wrapped experimenter's metric names
+            run.axiom(z3.ForAll([a], str_strip(X.str_concat(a, sfx), sfx) == a))
+            run.metric_suffix_free = sfx
+        else:
+            base_strs = list(run.strings)
+            cc = [X.str_concat(k, sfx) for k in base_strs]
+            run.assume(z3.Distinct(*(base_strs + cc)))
+            for k in base_strs:
+                run.assume(str_strip(X.str_concat(k, sfx), sfx) == k)
+                run.assume(X.str_concat(str_strip(k, sfx), sfx) != k)
+            run.strings = base_strs + cc
+        run.w = no_construct(it, st)
+        run.constructed = True
+        st.H0 = G(run)
+        return call_method(it, run.w, 'evaluate', [st.xs])
+    return entry
+
+
+def no_post(p):
+    R = 'C20.Noisy.evaluate.'
+    run = p.run
+    if p.kind != 'return':
+        return []
+    st = run.setup
+    calls = [c for c in base_calls(run) if not c['raised']]
+    ok = len(calls) == 1 and same_batch(calls[0], st)
+    out = [(R + 'delegates_once', z3.BoolVal(ok))]
+    if not ok:
+        return out
+    B, F, xs = calls[0]['post'], G(run), st.xs
+    dom, val, value = X.MDI.dom, X.MDI.val, X.MetricS.value
+    sfx = no_sfx()
+    had = lambda r, s: z3.And(B['fmset'][r], dom(B['metrics'][r])[s])
+    out += [
+        (R + 'noise_applied', QJ(xs, lambda j, r: QS(run, lambda s: z3.Implies(had(r, s), z3.And(
+            dom(F['metrics'][r])[s], value(val(F['metrics'][r])[s]) == noise_uf(value(val(B['metrics'][r])[s]))))))),
+        (R + 'unnoised_kept', QJ(xs, lambda j, r: QS(run, lambda s: z3.Implies(had(r, s), z3.And(
+            dom(F['metrics'][r])[X.str_concat(s, sfx)], metric_eq(val(F['metrics'][r])[X.str_concat(s, sfx)], val(B['metrics'][r])[s])))))),
+        (R + 'only_documented_metrics', QJ(xs, lambda j, r: QS(run, lambda s: z3.Implies(z3.And(B['fmset'][r], dom(F['metrics'][r])[s]), z3.Or(
+            dom(B['metrics'][r])[s], z3.And(s == X.str_concat(str_strip(s, sfx), sfx), dom(B['metrics'][r])[str_strip(s, sfx)])))))),
+        (R + 'status_untouched', QJ(xs, lambda j, r: z3.And(F['fmset'][r] == B['fmset'][r], F['infeas'][r] == B['infeas'][r], F['rest'][r] == B['rest'][r]))),
+        (R + 'base_sees_suggested_parameters', QJ(xs, lambda j, r: calls[0]['pre']['params'][r] == st.H0['params'][r])),
+    ]
+    return out + post_common(R, p)
+
+
+def no_scenario(p, model):
+    return scenario_from_model(p.run, model, [{'module': 'noisy_experimenter', 'class': 'NoisyExperimenter', 'kwargs': {'noise': 'PLUS1'}}])
+
+
+def n_noisy(which):
+    def fn(sc, obs):
+        if obs.get('exception') is not None:
+            return False
+        for e, t in zip(_scripted(sc), obs['after']):
+            if not e['has_fm']:
+                continue
+            for n, m in e['metrics'].items():
+                if n.endswith('_before_noise'):
+                    continue
+                got = t['metrics'] or {}
+                if which == 'noise' and not (n in got and same_float(got[n]['value'], dec_float(m['value']) + 1.0)):
+                    return False
+                if which == 'kept' and not (n + '_before_noise' in got and same_float(got[n + '_before_noise']['value'], m['value'])
+                                            and same_float(got[n + '_before_noise']['std'], m.get('std'))):
+                    return False
+            if which == 'only' and any(not (k in e['metrics'] or (k.endswith('_before_noise') and k[:-13] in e['metrics'])) for k in (t['metrics'] or {})):
+                return False
+        return True
+    return fn
+
+
+def units_noisy():
+    R = 'C20.Noisy.evaluate.'
+    native = {R + 'noise_applied': n_noisy('noise'), R + 'unnoised_kept': n_noisy('kept'), R + 'only_documented_metrics': n_noisy('only'),
+              R + 'parameters_unchanged': n_params_unchanged, R + 'completes': n_completes(), R + 'status_untouched': n_infeasibility}
+    return [Unit('NoisyExperimenter.evaluate', 'Noisy', [(NO, 'NoisyExperimenter.evaluate')], no_entry(), no_post, bentry=no_entry(BOUNDED),
+                 scenario=no_scenario, native=native)]
+
+
+# =========================================================================================== problem_statement() by value, all classes
+def ps_entry(construct, nbases=1, bounded=None):
+    def entry(it):
+        st = Setup(it, nbases=nbases, bounded=bounded)
+        run = it.run
+        run.w = construct(it, st)
+        run.constructed = True
+        st.H0 = G(run)
+        run.roots = [run.w] + st.bases + ([run.caller_ps] if getattr(run, 'caller_ps', None) is not None else [])
+        run.fp0 = X.state_fingerprint(run.roots)
+        run.reach0 = set(X.reachable(run.roots))
+        run.result = call_method(it, run.w, 'problem_statement', [])
+        return run.result
+    return entry
+
+
+def ps_post(short, same_metrics=True):
+    R = 'C20.%s.problem_statement.' % short
+
+    def post(p):
+        run = p.run
+        if p.kind != 'return':
+            # a constructor that rejects its arguments is not a path of problem_statement()
+            return [(R + 'returns', z3.BoolVal(False))] if getattr(run, 'constructed', False) else []
+        out = by_value_obligations(R, p)
+        st = run.setup
+        lst, l0 = result_metric_list(run.result), st.base.lst0
+        if same_metrics and lst is not None:
+            F, H0 = G(run), st.H0
+            same_len = (lst.n == l0.n) if z3.is_expr(lst.n) or z3.is_expr(l0.n) else z3.BoolVal(lst.n == l0.n)
+            out.append((R + 'metrics_of_wrapped_experimenter', z3.And(same_len, QJ(lst, lambda j, m: z3.And(
+                F['goal'][m] == H0['goal'][l0.arr[j]], F['miname'][m] == H0['miname'][l0.arr[j]])))))
+        return out
+    return post
+
+
+def ps_scenario(layer_of):
+    def scenario(p, model):
+        sc = scenario_from_model(p.run, model, [])
+        sc['kind'] = 'problem_statement'
+        names = [q['name'] for q in sc['base']['params']]
+        sc['wrappers'] = layer_of(sc, names)
+        return sc
+    return scenario
+
+
+PS_CLASSES = [
+    # short, module, class, construct, nbases, same metrics as the wrapped experimenter, replay layer
+    ('Shifting', SH, 'ShiftingExperimenter', sh_construct, 1, True,
+     lambda sc, names: [{'module': 'shifting_experimenter', 'class': 'ShiftingExperimenter', 'kwargs': {'shift': [0.05] * len(names)}}]),
+    ('Permuting', PE, 'PermutingExperimenter', pe_construct, 1, True, None),
+    ('Discretizing', DI, 'DiscretizingExperimenter', di_construct, 1, True,
+     lambda sc, names: [{'module': 'discretizing_experimenter', 'class': 'DiscretizingExperimenter', 'kwargs': {'discretization': {names[0]: [0.1, 0.5]}}}]),
+    ('Sparse', SP, 'SparseExperimenter', sp_construct, 1, True, None),
+    ('Noisy', NO, 'NoisyExperimenter', no_construct, 1, True,
+     lambda sc, names: [{'module': 'noisy_experimenter', 'class': 'NoisyExperimenter', 'kwargs': {'noise': 'PLUS1'}}]),
+    ('Normalizing', NZ, 'NormalizingExperimenter', nz_construct, 1, True,
+     lambda sc, names: [{'module': 'normalizing_experimenter', 'class': 'NormalizingExperimenter', 'kwargs': {'num_normalization_samples': 3}}]),
+    ('HyperCube', NZ, 'HyperCubeExperimenter', hc_construct, 1, True,
+     lambda sc, names: [{'module': 'normalizing_experimenter', 'class': 'HyperCubeExperimenter', 'kwargs': {}}]),
+    ('Numpy', NP, 'NumpyExperimenter', np_construct, 1, True, None),
+    ('HashingInfeasible', IN, 'HashingInfeasibleExperimenter', hi_construct, 1, True,
+     lambda sc, names: [{'module': 'infeasible_experimenter', 'class': 'HashingInfeasibleExperimenter', 'kwargs': {}}]),
+    ('ParamRegionInfeasible', IN, 'ParamRegionInfeasibleExperimenter', pr_construct, 1, True,
+     lambda sc, names: [{'module': 'infeasible_experimenter', 'class': 'ParamRegionInfeasibleExperimenter', 'kwargs': {'parameter_name': names[0]}}]),
+    ('Switch', SW, 'SwitchExperimenter', sw_construct, 2, False, None),
+    ('MultiObjective', MO, 'MultiObjectiveExperimenter', mo_construct, 2, False, None),
+]
+
+
+def returns_stored_object(p):
+    """witness class of the by-reference findings: the result IS an object stored in an attribute of the experimenter."""
+    run = p.run
+    return z3.BoolVal(any(run.result is v for v in run.w.attrs.values()))
+
+
+def units_problem_statement():
+    out = []
+    for short, mod, cname, construct, nb, same, layer in PS_CLASSES:
+        R = 'C20.%s.problem_statement.' % short
+        native = {R + k: n_by_value for k in ('by_value.fresh_objects', 'by_value.fresh_metric_configs', 'by_value.state_unchanged')}
+        known = {}
+        for k in ('by_value.fresh_objects', 'by_value.fresh_metric_configs'):
+            f = CHK.finding_for(R + k) if CHK is not None else None
+            if f is not None:
+                known[R + k] = (f['what'], returns_stored_object)
+        out.append(Unit('%s.problem_statement' % cname, short, [(mod, cname + '.problem_statement')], ps_entry(construct, nb), ps_post(short, same),
+                        bentry=ps_entry(construct, nb, BOUNDED) if layer else None, scenario=ps_scenario(layer) if layer else None,
+                        native=native, known=known))
+    return out
+
+
+# =========================================================================================== main
+def all_units():
+    return units_signflip() + units_transformers() + units_numpy() + units_infeasible_hypercube() + units_normalizing() + units_noisy() + units_problem_statement()
+
+
+def main(tier):
+    global TIER
+    TIER = tier
+    chk = report.Check('C20', tier, level='proof',
+                       technique='modular contract-based deductive verification: wrapper experimenters executed symbolically from their '
+                                 'real ASTs against an assumed BaseContract of the wrapped experimenter; heap of trials, loop contracts '
+                                 'over batches / parameter dicts / metric dicts of arbitrary size; bounded model query + native replay '
+                                 'for refutation')
+    global CHK
+    CHK = chk
+    for a in ASSUMPTIONS:
+        chk.assume(a)
+    for t in X.TRUST:
+        chk.trust(t)
+    chk.trust('pyvc VC generator (engine.py, models.py, exptr_model.py), z3 5.1.0')
+    try:
+        noisy_frame_obligations(chk)
+    except Exception as e:
+        import traceback
+        chk.error('C20.Noisy.readframe', 'checker crashed: %r\n%s' % (e, traceback.format_exc()[-1200:]))
+    for u in all_units():
+        try:
+            run_unit(chk, u)
+        except Exception as e:      # a crash of the checker is a checker error, never a verdict
+            import traceback
+            chk.error('C20.%s.checker' % u.label, 'checker crashed: %r\n%s' % (e, traceback.format_exc()[-1200:]))
+    return chk.finish(min_obligations=10)
